@@ -12,1270 +12,3135 @@ Definition show_fres (r : fres) : string :=
   end.
 Definition check (rs : list rune) : string := digest (show_fres (format_res rs)).
 Definition full (rs : list rune) : string := show_fres (format_res rs).
-Eval vm_compute in ("<<<M1436>>>" ++ check (runes_of_ascii "// top
+Eval vm_compute in ("<<<M3581>>>" ++ check (runes_of_ascii "// top
 options // c0
-{ // c1a
-  // c1b
-StringPrefixLenType // c2a
-  // c2b
-= u8 ; // c5
-ArrayPrefixLenType = // c7
-u8 ;
-    // c9
-FixedStringPadFromLeft // c10a
-  // c10b
-= true // c12a
+{ // c1
+LittleEndian // c2
+= // c3
+true
+    // c4
+; // c5
+ArrayPrefixLenType
+    // c6
+= u8 // c8
+; // c9
+FixedStringPadChar // c10
+= '0' // c12a
   // c12b
-; FixedStringPadChar // c14a
-  // c14b
-= // c15
-' ' ; // c17
-} // c18
-packet Logout
-    // c20
-{
-    // c21
-repeat // c22
-string // c23a
+; JavaPackage = // c15a
+  // c15b
+""com.example.msg""
+    // c16
+; // c17a
+  // c17b
+GoPackage // c18
+=
+    // c19
+""msg"" // c20a
+  // c20b
+; // c21a
+  // c21b
+GoModule
+    // c22
+= // c23a
   // c23b
-Px // c24a
+""example.com/msg"" // c24a
   // c24b
-, // c25
-repeat // c26a
-  // c26b
-string // c27a
-  // c27b
-seqNo
-    // c28
-, // c29a
-  // c29b
-InMsgkind64
+; // c25
+} // c26
+MetaData
+    // c27
+Meta // c28
+{ // c29
+u32
     // c30
-{
-    // c31
-uint16 OrderId // c33
-, // c34
-char[] // c35
-count , repeat i32 // c39a
-  // c39b
-venue ,
-    // c41
-} // c42
-, } packet
-    // c45
-Heartbeat
-    // c46
-{ // c47a
-  // c47b
-float32
-    // c48
-tag7 // c49a
-  // c49b
-, repeat InPrice50 // c52
-{ repeat
-    // c54
-char[ 5 ] // c57a
-  // c57b
-lastPx // c58
+SeqNum // c31
+`sequence number`
+    // c32
 ,
-    // c59
-InRef42 // c60a
-  // c60b
-{
-    // c61
-u8 // c62a
-  // c62b
-pad0 // c63
-, // c64
-} // c65a
-  // c65b
-, // c66
-uint32 // c67a
-  // c67b
-Acct // c68
-, repeat // c70a
-  // c70b
-Logout , // c72a
-  // c72b
-repeat // c73a
-  // c73b
-char[ 5 ] // c76
-Qty ,
-    // c78
-} // c79
-, repeat
-    // c81
-InSeqno30
-    // c82
-{
-    // c83
-repeat // c84a
-  // c84b
-Logout // c85
-, // c86
-} // c87a
-  // c87b
-, // c88a
-  // c88b
-@leftPad ( // c90a
-  // c90b
-'0' // c91a
-  // c91b
-) // c92a
-  // c92b
-char[ // c93a
-  // c93b
-12 ] Acct , // c97a
-  // c97b
-char[] Side2 // c99a
-  // c99b
-,
-    // c100
-repeat // c101
-string // c102a
-  // c102b
-msgKind // c103a
-  // c103b
-, }
-    // c105
-packet Ack // c107
-{
-    // c108
-Heartbeat // c109
-,
-    // c110
-char[ // c111a
-  // c111b
-8 // c112
-]
-    // c113
-seqNo
-    // c114
-,
-    // c115
-float64
-    // c116
-clOrdID // c117a
-  // c117b
-, } // c119
-packet Trade { // c122
-char[] // c123
-OrderId
-    // c124
-, // c125
-f64 Side2 // c127a
-  // c127b
-, // c128a
-  // c128b
-zchar[ // c129
-8
-    // c130
-]
-    // c131
-f1 ,
-    // c133
-string // c134a
-  // c134b
-Qty // c135
-,
-    // c136
-float64 // c137a
-  // c137b
-seqNo // c138a
-  // c138b
-, // c139a
-  // c139b
-repeat // c140a
-  // c140b
-Logout // c141
-,
-    // c142
-} packet // c144a
-  // c144b
-Order { f32 // c147a
-  // c147b
-OrderId , // c149
-repeat u8
-    // c151
-x
-    // c152
-, // c153
-Ack ,
-    // c155
-zchar[
-    // c156
-7 // c157a
-  // c157b
-]
-    // c158
-Note , // c160
-} root
-    // c162
-packet
-    // c163
-Logon { @rightPad // c166a
-  // c166b
-( // c167
-'\x00' // c168
-)
-    // c169
+    // c33
 char[
-    // c170
-9 // c171
-] // c172a
-  // c172b
-f1 // c173
-, // c174
+    // c34
+8 // c35
+] // c36
+Symbol
+    // c37
+`symbol`
+    // c38
+, // c39a
+  // c39b
+zchar[
+    // c40
+5 // c41
+] // c42
+ZSym `z symbol` ,
+    // c45
+string // c46
+Note , // c48a
+  // c48b
+Symbol
+    // c49
+AltSymbol `alias of symbol` // c51a
+  // c51b
+, // c52
+f64
+    // c53
+Price ,
+    // c55
+} // c56
+packet Inner // c58a
+  // c58b
+{ // c59a
+  // c59b
+u8 // c60a
+  // c60b
+a // c61a
+  // c61b
+, // c62
+i16 // c63a
+  // c63b
+b , // c65a
+  // c65b
+string c , // c68a
+  // c68b
+} // c69a
+  // c69b
+packet Inner2
+    // c71
+{ // c72a
+  // c72b
+u8 // c73
+a2 // c74
+,
+    // c75
+char[ // c76
+3
+    // c77
+] // c78
+c2 // c79a
+  // c79b
+, // c80a
+  // c80b
 }
+    // c81
+packet
+    // c82
+Logon {
+    // c84
+u8 // c85
+x ,
+    // c87
+string // c88
+user // c89a
+  // c89b
+,
+    // c90
+repeat // c91a
+  // c91b
+u16
+    // c92
+codes
+    // c93
+, // c94
+} packet
+    // c96
+Logout // c97a
+  // c97b
+{ // c98a
+  // c98b
+u16
+    // c99
+reason // c100a
+  // c100b
+, // c101
+} // c102a
+  // c102b
+packet // c103
+Empty
+    // c104
+{
+    // c105
+}
+    // c106
+root packet
+    // c108
+Msg
+    // c109
+{ u8
+    // c111
+su8 , // c113
+uint8
+    // c114
+luint8 , // c116a
+  // c116b
+u16 // c117
+su16
+    // c118
+, // c119a
+  // c119b
+uint16 luint16 // c121
+, // c122a
+  // c122b
+u32
+    // c123
+su32 ,
+    // c125
+uint32 // c126a
+  // c126b
+luint32 // c127
+, // c128
+u64 // c129
+su64
+    // c130
+,
+    // c131
+uint64
+    // c132
+luint64 , // c134
+i8 si8 // c136a
+  // c136b
+, int8
+    // c138
+lint8 // c139a
+  // c139b
+, // c140
+i16
+    // c141
+si16 , int16 // c144a
+  // c144b
+lint16
+    // c145
+, i32 // c147a
+  // c147b
+si32 // c148a
+  // c148b
+,
+    // c149
+int32
+    // c150
+lint32 // c151a
+  // c151b
+,
+    // c152
+i64 si64 ,
+    // c155
+int64 // c156a
+  // c156b
+lint64 // c157a
+  // c157b
+,
+    // c158
+f32 // c159
+sf32 // c160
+, // c161
+float32 lfloat32 , f64 // c165a
+  // c165b
+sf64 // c166
+, // c167
+float64
+    // c168
+lfloat64 // c169
+,
+    // c170
+char[
+    // c171
+6 ] fsplain // c174a
+  // c174b
+,
     // c175
+@leftPad
+    // c176
+( // c177
+'0'
+    // c178
+) char[ 4
+    // c181
+] // c182a
+  // c182b
+fs0 // c183
+, // c184a
+  // c184b
+@rightPad // c185
+( // c186a
+  // c186b
+'0' // c187
+) char[ // c189
+5
+    // c190
+]
+    // c191
+fs1
+    // c192
+, @leftPad // c194a
+  // c194b
+( // c195a
+  // c195b
+' '
+    // c196
+) char[
+    // c198
+6
+    // c199
+]
+    // c200
+fs2 // c201
+, @rightPad // c203
+( // c204
+' ' ) // c206
+char[ // c207
+7
+    // c208
+] // c209a
+  // c209b
+fs3 // c210
+, // c211a
+  // c211b
+@leftPad
+    // c212
+( '\x00'
+    // c214
+) char[ // c216a
+  // c216b
+8 // c217
+] // c218
+fs4
+    // c219
+,
+    // c220
+@rightPad // c221a
+  // c221b
+( // c222a
+  // c222b
+'\x00' // c223a
+  // c223b
+) // c224a
+  // c224b
+char[ 9 ] // c227a
+  // c227b
+fs5 // c228a
+  // c228b
+, // c229a
+  // c229b
+@leftPad // c230
+( // c231
+) // c232
+char[ // c233a
+  // c233b
+10 ]
+    // c235
+fs6 // c236a
+  // c236b
+, // c237
+@rightPad // c238
+( // c239
+) char[
+    // c241
+11 // c242a
+  // c242b
+] // c243
+fs7
+    // c244
+, // c245
+zchar[
+    // c246
+7 // c247
+] fz
+    // c249
+, // c250
+@leftPad // c251a
+  // c251b
+( '0' // c253
+)
+    // c254
+zchar[ // c255
+3 // c256a
+  // c256b
+] fzl0 , string // c260
+s1 // c261
+`doc`
+    // c262
+, // c263a
+  // c263b
+char[] s2 , // c266a
+  // c266b
+Inner
+    // c267
+, Sub // c269a
+  // c269b
+{
+    // c270
+u8 // c271
+q ,
+    // c273
+string // c274a
+  // c274b
+w // c275a
+  // c275b
+,
+    // c276
+Deep
+    // c277
+{ // c278
+u16 // c279
+z // c280
+,
+    // c281
+repeat i32 // c283
+zs // c284
+, // c285a
+  // c285b
+} // c286
+,
+    // c287
+} // c288
+, // c289
+repeat // c290a
+  // c290b
+u8 // c291a
+  // c291b
+ru8 , repeat // c294a
+  // c294b
+u16 ru16
+    // c296
+, // c297
+repeat // c298a
+  // c298b
+u32 ru32 // c300a
+  // c300b
+, // c301
+repeat u64 // c303a
+  // c303b
+ru64
+    // c304
+, // c305a
+  // c305b
+repeat // c306a
+  // c306b
+i8 // c307a
+  // c307b
+ri8 , // c309
+repeat // c310a
+  // c310b
+i16 // c311
+ri16 // c312a
+  // c312b
+, repeat // c314
+i32 ri32 // c316
+, // c317a
+  // c317b
+repeat // c318a
+  // c318b
+i64 // c319a
+  // c319b
+ri64
+    // c320
+, // c321a
+  // c321b
+repeat // c322
+f32 // c323
+rf32
+    // c324
+,
+    // c325
+repeat // c326a
+  // c326b
+f64
+    // c327
+rf64 , // c329a
+  // c329b
+repeat // c330a
+  // c330b
+string // c331a
+  // c331b
+rstr // c332
+, // c333a
+  // c333b
+repeat
+    // c334
+char[] // c335
+rstr2 , repeat
+    // c338
+char[ // c339
+3 ]
+    // c341
+rfs
+    // c342
+, // c343a
+  // c343b
+repeat zchar[
+    // c345
+3 // c346a
+  // c346b
+]
+    // c347
+rfz
+    // c348
+, // c349
+repeat // c350
+Inner2 // c351a
+  // c351b
+, // c352
+repeat // c353
+Grp // c354a
+  // c354b
+{ // c355
+u8 k ,
+    // c358
+char[ // c359a
+  // c359b
+2
+    // c360
+] // c361a
+  // c361b
+v , } // c364a
+  // c364b
+,
+    // c365
+SeqNum // c366a
+  // c366b
+, // c367
+SeqNum seq2
+    // c369
+, // c370
+repeat SeqNum seqs
+    // c373
+, // c374a
+  // c374b
+Symbol // c375
+, AltSymbol // c377
+alt // c378a
+  // c378b
+, // c379a
+  // c379b
+ZSym , Note // c382
+, // c383a
+  // c383b
+repeat
+    // c384
+Symbol
+    // c385
+syms // c386a
+  // c386b
+,
+    // c387
+Price // c388
+px , u16 // c391a
+  // c391b
+MsgType // c392a
+  // c392b
+,
+    // c393
+u32 // c394
+BodyLen
+    // c395
+@lengthOf( // c396
+Body
+    // c397
+)
+    // c398
+, // c399a
+  // c399b
+match // c400a
+  // c400b
+MsgType // c401a
+  // c401b
+as
+    // c402
+Body {
+    // c404
+1 // c405a
+  // c405b
+: // c406a
+  // c406b
+Logon // c407a
+  // c407b
+, [ // c409
+2
+    // c410
+, // c411
+3 // c412a
+  // c412b
+] : Logout , // c416a
+  // c416b
+7
+    // c417
+:
+    // c418
+Logon , 9 // c421
+: Empty // c423a
+  // c423b
+, // c424a
+  // c424b
+} // c425a
+  // c425b
+, // c426a
+  // c426b
+u32
+    // c427
+Checksum
+    // c428
+@calculatedFrom( ""CRC32"" // c430a
+  // c430b
+) // c431a
+  // c431b
+, // c432
+} // c433
 ")).
-Eval vm_compute in ("<<<M1871>>>" ++ check (runes_of_ascii "packet x {
-    len {
-        // " ++ [27880; 37322]%N ++ runes_of_ascii "
-        repeat i32 crc `say ""hi""`,
-        match chars as Packet {
-            0123456789 : Pad,
-            0123456789 : falsey,
-            // " ++ [27880; 37322]%N ++ runes_of_ascii "
-            [4294967296, 3, 4294967296, 0, ""1""] : roots,
-            ""a\\"" : _x,
-            3 : packetx,
-        },
-        repeat string stringy `tab	here`,
-        match roots as lengthOf {
-            ""abc"" : packetx,
-        },
-    },
-    @lengthOf(chars)
-    match rootA as roots {
-        ""\n"" : Packet,
-    },// `tick` ""quote"" 'q'
-    string As `" ++ [28040; 24687; 31867; 22411]%N ++ runes_of_ascii "`,
-    @rightPad('\x00')
-    int64 trueish @lengthOf(lengthOf) `" ++ [233]%N ++ runes_of_ascii "`,
+Eval vm_compute in ("<<<M945>>>" ++ check (runes_of_ascii "root packet // " ++ [27880; 37322]%N ++ runes_of_ascii "
+Logon
+{	@lengthOf(
+    options1)
+    @rightPad
+( '\x00') matchKey@lengthOf( roots) ,repeat i8 packetx , f32 uint8x @calculatedFrom(
+    // " ++ [27880; 37322]%N ++ runes_of_ascii "
+    ""CRC32""
+) ,
+// `tick` ""quote"" 'q'
+//x
+@lengthOf( rootA ) char[
+// packet A { u8 x, }
+// packet A { u8 x, }
+007
+    ]
+stringy	,  zchar[65535 ] trueish @calculatedFrom( ""a\""b"" ) ,
+// " ++ [128512]%N ++ runes_of_ascii " emoji
+/// triple
+@tag(
+    10 )
+    tag	{ match
+body as i8i8
+{  007 :
+    o ,
+7: Packet ,
+3 : Pad, } , }, // trailing space 
+@lengthOf( matchKey) match// " ++ [128512]%N ++ runes_of_ascii " emoji
+len
+as
+    chars { 0123456789 : uint8x [ 255 , 65535 ,
+""" ++ [128512]%N ++ runes_of_ascii """ ]
+    : roots,
+}
+    , } root  packet MetaDataX { match roots
+as Header  {""packet""  : _x
+42
+// trailing space 
+//	t
+: MetaDataX , ""`tick`"" :
+    i64_ , [
+// " ++ [27880; 37322]%N ++ runes_of_ascii "
+// c
+65535, ""abc"" ,
+""it's"", ""abc"" ,
+    // packet A { u8 x, }
+    ""a\\"" ,
+    // " ++ [128512]%N ++ runes_of_ascii " emoji
+    ""packet"" ]// `tick` ""quote"" 'q'
+: options1,}, matchKey
+    `" ++ [233]%N ++ runes_of_ascii "` ,
+@lengthOf(
+Header
+) i16
+int `crlf
+line`,
+match
+int
+as o {
+7 : // trailing space 
+A	,//	t
+}  , repeat u64 MetaDataX , @rightPad ( '\x00' ) @lengthOf( zchar)
+    zchar[ 7 ] u128 ,
+string
+// " ++ [27880; 37322]%N ++ runes_of_ascii "
+// trailing space 
+_x
+    @lengthOf(	metadata )`doc` ,
+@rightPad
+    ( // " ++ [27880; 37322]%N ++ runes_of_ascii "
+'\x00' ) float string_	, } options
+{x_y_z =  zchar[ 7 ] Packet  = false ; u8x
+// a // b
+// 50% %s
+=
+""packet"" uint8x= 7;_x
+=' '
+} options
+    {As ='\x00'
+u128
+    //x
+    =	false } // 50% %s
+root packet  As
+    // " ++ [128512]%N ++ runes_of_ascii " emoji
+    {  @lengthOf( chars
+    ) match body as Packet {
+    ""packet""
+    : u	, [
+//x
+//	t
+42 , // 50% %s
+""CRC32"" ]
+    :float ,	[""abc"" ] : matchKey ,
+    [""" ++ [233]%N ++ runes_of_ascii "t" ++ [233]%N ++ runes_of_ascii """ ]	:
+Z9_
+    , ""packet"" :
+repeatCount }, @lengthOf( stringy)
+@rightPad ( )  @leftPad	( ' '	) u
+    @lengthOf( Header ) `doc`
+    , metadata crc ,// " ++ [27880; 37322]%N ++ runes_of_ascii "
+calculatedFrom matchKey`100% of %d`
+, // a // b
+repeat
+int8 i8i8	,uint64 options1 `u8 x,` ,int falsey  `100% of %d` ,u crc
+    ,@lengthOf( msg_type
+// trailing space 
+// trailing space 
+)i16 pack @calculatedFrom(""packet"" ) `it's` , u8x Foo ,
+    /// triple
+    }
+")).
+Eval vm_compute in ("<<<M402>>>" ++ check (runes_of_ascii "
+options {}root packet
+msg_type {
+match	u8x // `tick` ""quote"" 'q'
+as
+    zchar
+{ [
+    0 ,
+00 ]
+:metadata //x
+,10
+    :
+    Z9_
+,
+""a\""b"":
+    //	t
+    chars	,
+0 :uint8x ,
+    // " ++ [27880; 37322]%N ++ runes_of_ascii "
+    007 : chars /// triple
+, } ,
+    A @lengthOf(Pad // c
+) , @leftPad(' ' )	@leftPad(' ' )
+@tag( 00	)  int8 Pad @calculatedFrom( ""x y"") ,}	root
+packet
+    // trailing space 
+    msg_type {
+    i64 uint8x ,
+@leftPad ( '\x00' ) Z9_ @calculatedFrom(
+    """" ) ,  Pad`two words`
+, } packet f32a
+    {
+    zchar[ 4294967296 ] // @lengthOf(
+u , @leftPad ( '0'
+    ) repeat uint64 zchar `crlf
+line`,
+    // 50% %s
+    int16 msg_type`100% of %d` ,@lengthOf( crc
+    )
+calculatedFrom
+    {
+// packet A { u8 x, }
+// " ++ [27880; 37322]%N ++ runes_of_ascii "
+Header {matchKey
+    @lengthOf( falsey
+    )/// triple
+,match int as
+/// triple
+//
+BodyLength { // 50% %s
+7: packetx , """ ++ [28040; 24687]%N ++ runes_of_ascii """ : msg_type , } , x @calculatedFrom(""a\""b"" ) ,match body as len { ""`tick`"": body	, """ ++ [128512]%N ++ runes_of_ascii """ :
+roots  ,
+// trailing space 
+//
+4294967296  :  packetx
+    ,
+/// triple
+// @lengthOf(
+""a\""b"" : matchKey,
+    }	, } ,
+    } , repeat i8i8
+body ,repeat As
+crc ,
+match
+    uint8x
+as
+tag
+    {  [ ""a\\""
+    , 7
+, ""x y"" ]: float ,""a	b""
+    // @lengthOf(
+    :A
+    ""CRC32"":
+    rootA ,
+[
+    //	t
+    ""a\""b"", ""CRC32"", 3 ,
+    ""it's"" , 42 , // `tick` ""quote"" 'q'
+65535
+, """"]
+: options1 , [ 1 ] :
+    Packet, }
+,
+match
+string_ as
+u8x { 0123456789 : zchar ,
+    //x
+    }
+    ,zchar
+@calculatedFrom( """") `line1
+line2`
+, repeat	T { metadata@calculatedFrom(
+""x y""
+) , match
+a1 as metadata{  4294967296	:	options1 , ""x y"" : i8i8
+},
+repeat  leftPad {
+    char[42 ] //
+float
+, // a // b
+} , }
+, }
+options { i64_ =
+true }")).
+Eval vm_compute in ("<<<M739>>>" ++ check (runes_of_ascii "// `tick` ""quote"" 'q'
+options{options1 =
+    10
+    } packet packetx {
+@leftPad ( ' '
+) match
+    x as // trailing space 
+body
+//	t
+// trailing space 
+{ [ 65535 ] : Pad
+// a // b
+//x
+,}
+, @calculatedFrom(
+""abc""
+    // trailing space 
+    ) repeat
+string u  ,
+    @lengthOf( tag  )trueish As
+    , @lengthOf( falsey ) zchar[	1 ]
+    a1 , repeat char[]packetx
+// " ++ [27880; 37322]%N ++ runes_of_ascii "
+// trailing space 
+`a\` ,  uint64
+    rootA @calculatedFrom( ""a	b""
+) `crlf
+line` , string Packet `" ++ [28040; 24687; 31867; 22411]%N ++ runes_of_ascii "` , uint8 tag
+    @lengthOf(  o ) , } packet Foo
+{u64 u128 @lengthOf( u )
+    ,@tag(	00 )@lengthOf(
+    //	t
+    i8i8
+    ) @leftPad ( '0')char[ 1 ] calculatedFrom @lengthOf(
+i64_ ) ,repeat u{matchKey
+//	t
+//
+, repeat Packet
+// trailing space 
+// " ++ [27880; 37322]%N ++ runes_of_ascii "
+,char[ 10 ] Z9_ // c
+@lengthOf(
+// trailing space 
+// @lengthOf(
+MetaDataX
+    )  `" ++ [233]%N ++ runes_of_ascii "` ,repeat
+    falsey {
+zchar[0 ] u8x @lengthOf(f32a )
+    , string
+falsey `" ++ [28040; 24687; 31867; 22411]%N ++ runes_of_ascii "`,} , }
+,charz`doc` , @tag(  10 )
+char[]
+u128 @lengthOf(rootA ) `doc` ,
+}packet chars	{  uint8 Z9_
+    , //x
+} packet len// a // b
+{@lengthOf( tag )@tag( 0123456789  )	@lengthOf(repeatCount)
+_x
+    { x Packet
+    `line1
+line2` , match
+// a // b
+// 50% %s
+crc as packetx { 1
+    :
+    body,
+255:
+As , // " ++ [128512]%N ++ runes_of_ascii " emoji
+""a\""b"" : As[	007	,
+007	]
+:
+// a // b
+// c
+repeatCount """ ++ [233]%N ++ runes_of_ascii "t" ++ [233]%N ++ runes_of_ascii """ :
+    u8x // `tick` ""quote"" 'q'
+}
+    // 50% %s
+    , // 50% %s
+uint64 leftPad @lengthOf( asx )	`` ,zchar[  007] string_, } , chars	@lengthOf(int ) //	t
+`" ++ [28040; 24687; 31867; 22411]%N ++ runes_of_ascii "`
+,}")).
+Eval vm_compute in ("<<<M3916>>>" ++ check (runes_of_ascii "// a // b
+    root
+	packet	asx// packet A { u8 x, }
+	  { }
+	root
+
+packet
+
+asx 
+{
+
+    @calculatedFrom( 
+// 50% %s
+	  ""\n"")	metadata
+    @lengthOf(
+    T  )  ,	@lengthOf(
+	x )	Logon	@calculatedFrom(
+	"""")	// 50% %s
+  ,  @calculatedFrom(""a	b"" )
+
+    x_y_z`a\`
+
+    ,  stringy { uint64
+
+    float	`doc`
+
+    ,	//
+  },
+@tag(
+
+7)	@lengthOf( 
+MetaDataX
+
+    ) @tag(
+	10
+
+)string 
+packetx 
+`a\`
+    , 
+int 
+@calculatedFrom(
+""it's"")	,
+
+    A
+
+trueish,
+
+@calculatedFrom(	""{,}"" ) 
+i32 chars , } root
+
+    packet  lengthOf{ @leftPad	(	'0'
+
+)
+	@lengthOf(float )@tag(	00
+
+    // c
+  //	t
+
+	)
+	// `tick` ""quote"" 'q'
+
+repeat	f32
+metadata
+	``
+	, 
+@lengthOf(	As  // trailing space 
+)// a // b
+
+	float32
+msg_type `line1
+line2`
+	,
+@lengthOf(
+
+    repeatCount )	@lengthOf(	Logon 
+) char[  
+      // 50% %s
+  	4294967296]
+    BodyLength
+,  }	packet
+	// packet A { u8 x, }
+
+	packetx{
+
+    @leftPad  (	)
+
+    Logon	// " ++ [27880; 37322]%N ++ runes_of_ascii "
+    `u8 x,` ,
+match matchKey
+
+as
+MetaDataX  {
+1
+    :
+
+_x,  """ ++ [128512]%N ++ runes_of_ascii """
+:
+f32a
+00 // c
+: x, }	,
+    @calculatedFrom(""a	b""  )	repeat
+x_y_z
+x_y_z
+    ,
+	zchar[
+	007
+	]
+calculatedFrom
+
+`100% of %d` ,
+packetx 	 // @lengthOf(
+
+@lengthOf(  // a // b
+
+msg_type
+    ) `a\` ,
+
+    char[	// a // b
+  007 
+]	x_y_z 
+`it's`	// trailing space 
+,
+
+    }
+
+")).
+Eval vm_compute in ("<<<M887>>>" ++ check (runes_of_ascii "
+root	packet
+uint8x
+{ }packet i8i8 { @lengthOf( x_y_z )
+// 50% %s
+//x
+char[]	BodyLength @calculatedFrom(
+""a\\"")`crlf
+line`// trailing space 
+, @tag( 1
+    //	t
+    ) tag { match repeatCount as repeatCount{ ""a	b"" //	t
+: body,	} ,
+},x_y_z@lengthOf( trueish ) ,
+    // a // b
+    f64 crc,@calculatedFrom(
+""x y"")	@tag(
+0// " ++ [128512]%N ++ runes_of_ascii " emoji
+) @tag( 65535 )
+int16 u128 @lengthOf(string_  ) `tab	here` ,char[	0123456789]Foo @calculatedFrom(""CRC32"") , @calculatedFrom(""a\\"")
+    match T
+as msg_type{
+[65535,	""x y"" ,3 ,  255 ,  0 ] :
+T , [""CRC32"", ""1"" , 3 , 10 ,65535	]	:u
+    ,
+    4294967296:  a1// c
+, }
+    , crc `doc` , @calculatedFrom(	""" ++ [28040; 24687]%N ++ runes_of_ascii """ )
+    // c
+    @tag( 42
+) uint16 Foo, }
+// " ++ [27880; 37322]%N ++ runes_of_ascii "
+// c
+root //	t
+packet
+// c
+/// triple
+tag {calculatedFrom `tab	here` , } packet metadata
+{ u64
+uint8x	@calculatedFrom(
+""// no comment"") , } root packet
+chars {@tag( 255
+) @calculatedFrom( ""\n"" )@lengthOf( Packet
+)repeat // 50% %s
+options1
+{	f32 MetaDataX @calculatedFrom( ""a\""b""
+),
+// c
+/// triple
+repeat
+char[ 0123456789
+]
+// `tick` ""quote"" 'q'
+// packet A { u8 x, }
+Foo , // packet A { u8 x, }
+float32
+    charz
+// packet A { u8 x, }
+// 50% %s
+@lengthOf( msg_type ) `a\`
+    , } , }")).
+Eval vm_compute in ("<<<M1407>>>" ++ check (runes_of_ascii "options {
+	StringPrefixLenType = u16;
+	ArrayPrefixLenType = u16;
 }
 
-packet len {
+packet SampleBinary {
+	uint16 MsgType `" ++ [28040; 24687; 31867; 22411]%N ++ runes_of_ascii "`,
+	u16 BodyLenght @lengthOf(Body) `" ++ [28040; 24687; 20307; 38271; 24230]%N ++ runes_of_ascii "`,
+	match MsgType as Body {
+		1 : Logon,
+		2 : Logout,
+		3 : Heartbeat,
+		4 : RiskControlRequest,
+		5 : RiskControlResponse,
+	},
+		@calculatedFrom(""CRC32"")
+	u32 Ckecksum `" ++ [26657; 39564; 21644]%N ++ runes_of_ascii "`,
+}
+
+packet Logon {
+	 @leftPad('0')
+	char[10] UserName `" ++ [29992; 25143; 21517]%N ++ runes_of_ascii "`,
+	string Password `" ++ [23494; 30721]%N ++ runes_of_ascii "`,
+	uint64 ClientId `" ++ [23458; 25143; 31471]%N ++ runes_of_ascii "ID`,
+	u16 HeartbeatInterval `" ++ [24515; 36339; 38388; 38548]%N ++ runes_of_ascii "`,
+}
+
+packet Logout {
+	  @rightPad('0')
+	char[10] UserName `" ++ [29992; 25143; 21517]%N ++ runes_of_ascii "`,
+	uint64 ClientId `" ++ [23458; 25143; 31471]%N ++ runes_of_ascii "ID`,
+}
+
+packet Heartbeat {
+}
+
+packet RiskControlRequest {
+	string UniqueOrderId `" ++ [21807; 19968; 35746; 21333; 21495]%N ++ runes_of_ascii "`,
+	char[16] ClOrdID `" ++ [23458; 25143; 35746; 21333; 21495]%N ++ runes_of_ascii "`,
+	char[3] MarketID `" ++ [24066; 22330]%N ++ runes_of_ascii "id`,
+	char[12] SecurityID `" ++ [35777; 21048; 20195; 30721]%N ++ runes_of_ascii "`,
+	char Side `" ++ [20080; 21334; 26041; 21521]%N ++ runes_of_ascii "`,
+	char OrderType `" ++ [35746; 21333; 31867; 22411]%N ++ runes_of_ascii "`,
+	u64 Price `" ++ [20215; 26684]%N ++ runes_of_ascii "`,
+	u32 Qty `" ++ [25968; 37327]%N ++ runes_of_ascii "`,
+	repeat string ExtraInfo `" ++ [38468; 21152; 20449; 24687]%N ++ runes_of_ascii "`,
+	repeat SubOrder {
+			char[16] ClOrdID `" ++ [23376; 35746; 21333; 21495]%N ++ runes_of_ascii "`,
+			u64 Price `" ++ [23376; 35746; 21333; 20215; 26684]%N ++ runes_of_ascii "`,
+			u32 Qty `" ++ [23376; 35746; 21333; 25968; 37327]%N ++ runes_of_ascii "`,
+		},
+}
+
+packet RiskControlResponse {
+	string UniqueOrderId `" ++ [21807; 19968; 35746; 21333; 21495]%N ++ runes_of_ascii "`,
+	i32 Status `" ++ [29366; 24577]%N ++ runes_of_ascii "`,
+	string Msg `" ++ [32467; 26524; 20449; 24687]%N ++ runes_of_ascii "`,
+	repeat Detail,
+}
+
+packet Detail {
+	string RuleName `" ++ [35268; 21017; 21517; 31216]%N ++ runes_of_ascii "`,
+	u16 Code `" ++ [21407; 22240; 20195; 30721]%N ++ runes_of_ascii "`,
+}")).
+Eval vm_compute in ("<<<M3530>>>" ++ check (runes_of_ascii "packet NewOrder { // c2a
+  // c2b
+u32 // c3
+qty // c4a
+  // c4b
+, } // c6
+packet // c7a
+  // c7b
+Cancel
+    // c8
+{ // c9
+u64 // c10
+id
+    // c11
+, // c12
+}
+    // c13
+packet
+    // c14
+Business // c15a
+  // c15b
+{ u8 // c17
+Kind , match // c20
+Kind // c21a
+  // c21b
+as // c22
+Detail
+    // c23
+{ 1 // c25a
+  // c25b
+: NewOrder // c27
+,
+    // c28
+2 : // c30
+Cancel ,
+    // c32
+} , } packet // c36a
+  // c36b
+TcpFrame // c37a
+  // c37b
+{
+    // c38
+u8
+    // c39
+T ,
+    // c41
+match // c42
+T // c43a
+  // c43b
+as Body // c45a
+  // c45b
+{ // c46
+1 // c47a
+  // c47b
+: Business // c49a
+  // c49b
+, // c50
+} // c51a
+  // c51b
+, // c52
+} // c53
+packet UdpFrame // c55a
+  // c55b
+{
+    // c56
+u8 // c57
+U // c58a
+  // c58b
+, // c59a
+  // c59b
+match // c60a
+  // c60b
+U as // c62a
+  // c62b
+Body // c63a
+  // c63b
+{ // c64
+1 : Business
+    // c67
+, // c68
+} // c69a
+  // c69b
+,
+    // c70
+Business // c71a
+  // c71b
+extra // c72a
+  // c72b
+, } // c74
+root packet Wire // c77
+{ TcpFrame // c79a
+  // c79b
+,
+    // c80
+UdpFrame , // c82
+} ")).
+Eval vm_compute in ("<<<M3810>>>" ++ check (runes_of_ascii "
+
+  packet o { match
+
+asx as  u8x
+
+    { [
+    ""x y"" ,//
+    ""CRC32"" ,  ""// no comment""  ,	""a	b""
+, 
+""abc""  , 	 // `tick` ""quote"" 'q'
+  ""// no comment""]
+:
+
+Foo , } , int64
+uint8x  @lengthOf(
+
+T 	 // trailing space 
+      )	,char[
+    4294967296	//	t
+  ]roots ,// a // b
+repeat  Pad {
+
+string
+zchar @lengthOf(
+asx	)	,
+
+    repeat lengthOf { 
+string
+u
+    @lengthOf(
+    int), 
+repeat	float64 Packet
+,} , 
+match
+    uint8x
+as
+
+    rootA
+
+    { 1
+:o
+	,
+
+    },
+
+}  , // @lengthOf(
+repeat
+
+char[65535 
+
+    //
+
+	//x
+    ]
+	crc
+,@lengthOf(  options1  )
+string	/// triple
+Packet	`crlf
+line`
+	, // `tick` ""quote"" 'q'
+	pack
+{
+	u64
+    i64_ `say ""hi""`  ,
+    i32  a1  `say ""hi""`
+, match
+	Z9_
+as 
+
+    // `tick` ""quote"" 'q'
+  msg_type
+	{
+65535:
+u,
+    [
+    7
+,
+7, 42
+, """ ++ [28040; 24687]%N ++ runes_of_ascii """]:
+asx,
+
+    """ ++ [233]%N ++ runes_of_ascii "t" ++ [233]%N ++ runes_of_ascii """
+:
+    _x
+    ,[
+255
+]
+        // 50% %s
+// trailing space 
+	:
+
+metadata  ,}
+	,i32  T  `" ++ [28040; 24687; 31867; 22411]%N ++ runes_of_ascii "` , }
+
+,
+    //
+	  uint32
+rootA, @tag( 007
+	) repeat f64 pack ,} ")).
+Eval vm_compute in ("<<<M1203>>>" ++ check (runes_of_ascii "packet float { @tag( 3
+// " ++ [27880; 37322]%N ++ runes_of_ascii "
+// packet A { u8 x, }
+) repeat zchar[
+3 ]	falsey, @leftPad ( )	packetx calculatedFrom , o  @lengthOf(
+i8i8 )	,	i64 o
+,  char[
+0
+    ]stringy , match metadata  as metadata
+//
+//	t
+{0
+    :BodyLength ""it's""
+:u 3	: chars ,
+    255
+    : asx , [	4294967296  ,
+    10 ] : int  , 4294967296 :stringy
+    , } , Foo { match
+    chars as A {
+    ""a\\"" : Packet , [0123456789 // `tick` ""quote"" 'q'
+,0123456789 // `tick` ""quote"" 'q'
+,//x
+0123456789 , """ ++ [128512]%N ++ runes_of_ascii """ ,
+    ""1"", 3 ,
+""CRC32"" ] :
+msg_type, } , match body
+as
+    int{ 7 : packetx
+    // packet A { u8 x, }
+    , } , i8 zchar //
+@calculatedFrom( ""\n""
+) , match stringy
+// `tick` ""quote"" 'q'
+// 50% %s
+as Foo
+{
+    65535  :	calculatedFrom// c
+}, }
+    ,@rightPad ('\x00'  )
+MetaDataX
+    pack `" ++ [28040; 24687; 31867; 22411]%N ++ runes_of_ascii "`
+, }options { roots
+= 65535 ;
+} MetaData //
+float
+    // " ++ [128512]%N ++ runes_of_ascii " emoji
+    {Foo
+f32a , } options
+{ f32a  = //
+1  }  options { Packet = '\x00';	}")).
+Eval vm_compute in ("<<<M3692>>>" ++ check (runes_of_ascii "
+
+  packet
+    string_
+	{@calculatedFrom(
+	""" ++ [128512]%N ++ runes_of_ascii """ )
+zchar[ 3
+
+    ] packetx
+	, 
+}
+
+packet
+//x
+
+  // trailing space 
+MetaDataX{ x	T,@leftPad
+	( '\x00'  ) 
+
+/// triple
+
+  // packet A { u8 x, }
+
+  zchar[	// `tick` ""quote"" 'q'
+    10]
+
+leftPad
+
+    @lengthOf( chars
+
+    ) `" ++ [233]%N ++ runes_of_ascii "` , }
+
+packet len { @calculatedFrom(
+    ""1""  ) @tag(	// `tick` ""quote"" 'q'
+	  4294967296 )
+leftPad	, repeat i8i8 {string_ @lengthOf(rootA  )
+	, } 
+,
+    @lengthOf( 
+leftPad )
+char	zchar, 
+@lengthOf(
+MetaDataX ) // 50% %s
+  @tag(
+10
+    )	@rightPad
+('0'	)	options1 // " ++ [128512]%N ++ runes_of_ascii " emoji
+      matchKey	`tab	here`	,@tag( 1 ) 	 //
+  repeat
+	    // packet A { u8 x, }
+  float
+, 
+} 
+MetaData
+stringy
+    {
+    }packet packetx
+{
+
+@tag(	// c
+	42)  @leftPad
+( '0' )	int8  f32a  ,
+@leftPad
+    (
+
+    ) @calculatedFrom(  ""a\""b"" 
+)
+
+    @rightPad	( '\x00' )
+u16
+    packetx @calculatedFrom( ""it's""
+	) ,  } ")).
+Eval vm_compute in ("<<<M1278>>>" ++ check (runes_of_ascii "MetaData asx { msg_type  leftPad ,roots T // `tick` ""quote"" 'q'
+`{ , }` , } root packet
+MetaDataX	{ i16 u @calculatedFrom( ""packet""
+    ) , match
+    As as	chars {""a	b""
+: metadata ,
+    [ //	t
+""a	b"" ,""1""	,""// no comment"" , 0123456789
+    //	t
+    , """" , ""x y"" ,00	,0
+    ]:x ""packet"" : stringy 10
+: Logon// @lengthOf(
+,
+// " ++ [27880; 37322]%N ++ runes_of_ascii "
+// a // b
+[ 7 , 4294967296 //	t
+]
+:
+calculatedFrom
+    ,""it's""
+:  matchKey } , uint32 trueish  ``  ,
+    string  string_,	} packet
+Foo
+{ Foo@lengthOf( f32a )
+, repeat metadata
+{
+// c
+// " ++ [27880; 37322]%N ++ runes_of_ascii "
+char[// " ++ [128512]%N ++ runes_of_ascii " emoji
+255
+]
+    /// triple
+    matchKey `{ , }`
+    ,repeat string_ Pad
+    //x
+    , } ,
+repeat// " ++ [27880; 37322]%N ++ runes_of_ascii "
+tag // " ++ [27880; 37322]%N ++ runes_of_ascii "
+{ i32 options1 , falsey@calculatedFrom(/// triple
+""x y"" // packet A { u8 x, }
+), float
+{ i64 body @lengthOf( metadata )
+,int64 falsey`say ""hi""`, }  ,/// triple
+}
+    ,
+    roots roots ``
+,}
+")).
+Eval vm_compute in ("<<<M4464>>>" ++ check (runes_of_ascii "
+MetaData Packet {
+
+    }
+	packet stringy
+
+    {
+
+    zchar[
+00
+]
+tag  @lengthOf( u	)  /// triple
+	`it's` 
+,
+	repeat
+char[
+255]
+    Foo`line1
+line2`
+    , @tag(
+
+0123456789 )
+a1
+    @lengthOf(  Header
+)
+, 
+@rightPad (
+'\x00'
+)
+match
+
+MetaDataX  as u128 {// 50% %s
+  [  """ ++ [28040; 24687]%N ++ runes_of_ascii """]
+    :calculatedFrom,
+0123456789  :
+    _x
+
+    ,""1""
+
+    :	u
+[ """ ++ [28040; 24687]%N ++ runes_of_ascii """ , ""`tick`"" ] 
+  //x
+
+// @lengthOf(
+  :int
+	,""\n""  :
+x
+	,7  : 
+asx
+
+,
+
+} ,As
+
+crc
+    `doc` ,
+
+    @lengthOf(	charz 
+// " ++ [128512]%N ++ runes_of_ascii " emoji
+
+  )	uint8x chars	, 
+  /// triple
+	}
+options 
+{ i64_	=
+zchar[	007  ]
+
+    ;
+
+    pack =
+
+    42
+
+; 	 // 50% %s
+	tag  =// " ++ [128512]%N ++ runes_of_ascii " emoji
+	42  ; }
+options
+{ 
+metadata
+
+// trailing space 
+    =zchar[
+65535
+
+];
+    a1
+
+    =
+
+    '0' 	 // 50% %s
+      ;
+
+    roots =
+    00 o
+    =42  Pad=	false	; }
+")).
+Eval vm_compute in ("<<<M547>>>" ++ check (runes_of_ascii "// c
+MetaData options1 { Pad body , int64 As , uint8  f32a`" ++ [233]%N ++ runes_of_ascii "`, /// triple
+char
+    // trailing space 
+    repeatCount  ,	} root packet calculatedFrom// @lengthOf(
+{ match Packet as calculatedFrom
+{ 3
+    //
+    :lengthOf ,[  65535  ] :roots, //
+0123456789 : // trailing space 
+A , 42  :// c
+Logon ,  [65535 ]  :i64_
+    [007
+,	4294967296 ] : o, }
+    , }	packet BodyLength {
+@tag( // trailing space 
+007) @tag( 0123456789  )match
+Pad as// 50% %s
+i8i8
+    {	""" ++ [233]%N ++ runes_of_ascii "t" ++ [233]%N ++ runes_of_ascii """ :
+chars, 4294967296 :
+    A , 10 :
+x //	t
+,""" ++ [233]%N ++ runes_of_ascii "t" ++ [233]%N ++ runes_of_ascii """ : crc""\n"" : options1 , }// " ++ [27880; 37322]%N ++ runes_of_ascii "
+,}packet matchKey
+//
+// packet A { u8 x, }
+{
+u8 repeatCount ,repeat
+    zchar[
+0123456789 ]stringy ,@leftPad
+( )@tag(
+10)
+    @tag(	255
+    // `tick` ""quote"" 'q'
+    )
+//
+// 50% %s
+options1 @lengthOf( x_y_z )	, }
+")).
+Eval vm_compute in ("<<<M1307>>>" ++ check (runes_of_ascii "root
+    // " ++ [128512]%N ++ runes_of_ascii " emoji
+    packet falsey { @lengthOf(leftPad)	repeat
+    a1 Foo
+`
+`
+//x
+// @lengthOf(
+,repeat crc ,
+string_
+{ repeatCount ,packetx , u8	metadata @lengthOf( body// c
+)`say ""hi""` , char// trailing space 
+Packet @calculatedFrom( ""// no comment"" ) //
+`{ , }`, } , @lengthOf( u8x ) zchar[ 65535 ] lengthOf @lengthOf(
+    crc),
+@tag( 4294967296 ) @lengthOf(
+string_ )@rightPad( ' '	)
+repeat int64 As	,
+    //	t
+    u16 options1 , @calculatedFrom(	""a\\"")repeat
+    float {
+    zchar[ 3 ] crc , }
+    , int8 lengthOf `" ++ [233]%N ++ runes_of_ascii "` , u8x //
+@lengthOf( i8i8
+) `{ , }` ,
+} packet
+options1 //x
+{
+    asx @lengthOf( matchKey ) ,}
+options{	i64_ =
+    // @lengthOf(
+    zchar[65535
+]	; u128	=""// no comment"" leftPad = ""\n"" ;}
+")).
+Eval vm_compute in ("<<<M0>>>" ++ check (runes_of_ascii "packet body{ @tag( 0123456789 )repeatCount { // @lengthOf(
+i32
+roots	@calculatedFrom( ""it's""
+    )
+    // trailing space 
+    ,
+    char[]repeatCount @calculatedFrom(
+""packet"" ) `" ++ [28040; 24687; 31867; 22411]%N ++ runes_of_ascii "` // " ++ [128512]%N ++ runes_of_ascii " emoji
+,repeat u16 roots , match lengthOf as As //	t
+{ [ ""packet"" ,""" ++ [28040; 24687]%N ++ runes_of_ascii """,	255
+, 42 ,""\" ++ [233]%N ++ runes_of_ascii """ ] : x_y_z ,
+    } , } , trueish ,@tag( 65535 )
+@tag( 255  ) /// triple
+@tag(00) chars @calculatedFrom(""it's"" ) ,	match o as
+    // `tick` ""quote"" 'q'
+    roots {
+// " ++ [27880; 37322]%N ++ runes_of_ascii "
+// c
+""{,}""
+: options1 , """ ++ [28040; 24687]%N ++ runes_of_ascii """
+    :	lengthOf	, 00: pack  ,[ ""a\""b"" ] :
+    msg_type ,1 : i8i8
+, [ 10  , 3 ,"""" ] : falsey ,} , }
+root packet// 50% %s
+Z9_ {repeat
+char[]
+Packet
+    , string chars
+@calculatedFrom( ""a\""b"" )`100% of %d`,
+}
+")).
+Eval vm_compute in ("<<<M4316>>>" ++ check (runes_of_ascii "packet u128 {
+    zchar[7] Logon ``,
+    @leftPad('\x00')
+    repeat Logon `
+    `,
+    Pad MetaDataX,
+    @rightPad()
+    char pack,
+    @lengthOf(matchKey)
+    repeat roots {
+        char[00] Logon `// not a comment`,
+    },
+    // 50% %s
+    @calculatedFrom(""1"")
+    repeat x_y_z {
+        tag MetaDataX `two words`,
+        msg_type @calculatedFrom(""" ++ [233]%N ++ runes_of_ascii "t" ++ [233]%N ++ runes_of_ascii """) `" ++ [28040; 24687; 31867; 22411]%N ++ runes_of_ascii "`,
+        int64 zchar @calculatedFrom(""a\\""),
+        BodyLength @lengthOf(tag),
+    },
+    uint64 a1,
+}
+
+packet x {
+    repeat zchar[10] falsey `u8 x,`,
+}// " ++ [27880; 37322]%N ++ runes_of_ascii "
+
+options {
+    //	t
+    int = ""\n""
+    float = ""\n""
+    float = ""`tick`"";
+}
+
+root packet tag {
+    //x
+    x_y_z `crlf
+    line`,
+}")).
+Eval vm_compute in ("<<<M500>>>" ++ check (runes_of_ascii "// trailing space 
+root
+packet msg_type {
+@tag(
+    007 )char A
+@lengthOf(
+_x )
+    , @tag(00 )//	t
+int16
+    chars `// not a comment`,Logon stringy , @lengthOf(_x )// @lengthOf(
+@tag( 0123456789	)	@tag( 007 ) repeat
+int, repeatCount `
+` ,@tag( 0123456789 )
+@calculatedFrom( ""\n"" )
+i8i8	calculatedFrom
+, repeat roots {body@lengthOf( msg_type) ``, } , @rightPad	( )// packet A { u8 x, }
+match
+// trailing space 
+// trailing space 
+packetx as Z9_ {
+    [ 3// `tick` ""quote"" 'q'
+]
+: leftPad , 0123456789: A , 00: crc
+,
+007: len	,[
+""a	b"" ] : Pad ,  ""a	b""
+:/// triple
+tag ,},msg_type leftPad	`tab	here` , // packet A { u8 x, }
+}
+")).
+Eval vm_compute in ("<<<M1360>>>" ++ check (runes_of_ascii "packet
+stringy { Packet// a // b
+@calculatedFrom(  ""a\""b""
+)
+    ,
+@leftPad
+( '\x00'
+) chars roots `two words`
+,
+@lengthOf(
+    charz )char[]
+// a // b
+/// triple
+crc	, } packet
+    int {
+char[ 255 // `tick` ""quote"" 'q'
+]
+    i8i8`two words` ,
+    match options1 as  T {[
+    ""1""
+// `tick` ""quote"" 'q'
+// " ++ [27880; 37322]%N ++ runes_of_ascii "
+, ""`tick`""  , 42 , ""CRC32""
+, /// triple
+0123456789// `tick` ""quote"" 'q'
+] : // a // b
+repeatCount,""\" ++ [233]%N ++ runes_of_ascii """ :
+    f32a//
+, 0:rootA , } , @calculatedFrom(
+    ""it's""
+    ) As
+    o	, @tag(10 ) zchar[ 255
+    ]
+    // `tick` ""quote"" 'q'
+    trueish @calculatedFrom(  """ ++ [233]%N ++ runes_of_ascii "t" ++ [233]%N ++ runes_of_ascii """)	,	} options{ u8x= """"
+}
+")).
+Eval vm_compute in ("<<<M748>>>" ++ check (runes_of_ascii "packet	_x {
+@tag(255 )
+    Header@calculatedFrom(
+    ""`tick`"" ) , @tag( 00 ) @lengthOf( metadata ) repeat x_y_z repeatCount `crlf
+line`
+// trailing space 
+// @lengthOf(
+,//x
+@rightPad(
+' ' ) //x
+string zchar	`
+` , char[]T , match	Z9_ as
+string_{
+0:
+    //	t
+    pack ,
+    0123456789 : Pad
+7
+    : float
+// packet A { u8 x, }
+//x
+[ 0 ,
+0123456789
+    , 3 ] :
+    //
+    As [ 255 , 00	] : BodyLength , }
+,repeat
+BodyLength `doc` , // `tick` ""quote"" 'q'
+f32a Packet `doc` , calculatedFrom
+@calculatedFrom(""// no comment"" )
+`crlf
+line`
+, u16 zchar ,
+repeat u128 ,}
+")).
+Eval vm_compute in ("<<<M1003>>>" ++ check (runes_of_ascii "packet falsey { @calculatedFrom( ""it's"" ) @tag(
+1 //x
+)
+match Header	as	f32a
+    { 255 : o	,
+[ 255 ,4294967296
+] : metadata
+//
+// c
+10 :
+    matchKey	[  42 ,
+    3 ] : len ,	[007] // trailing space 
+: charz, //x
+[
+0 ]//
+:matchKey // trailing space 
+, } , //	t
+u32 calculatedFrom `line1
+line2` ,match  A as i64_
+{""\" ++ [233]%N ++ runes_of_ascii """ :	charz  , ""// no comment""
+: // " ++ [27880; 37322]%N ++ runes_of_ascii "
+matchKey , }
+    //x
+    , }
+    //x
+    packet
+Logon{
+char[]
+T
+    // " ++ [128512]%N ++ runes_of_ascii " emoji
+    `two words`,
+    @calculatedFrom(""" ++ [28040; 24687]%N ++ runes_of_ascii """ ) repeat int32 msg_type , char[ 65535] pack `it's`
+    //	t
+    , }
+")).
+Eval vm_compute in ("<<<M270>>>" ++ check (runes_of_ascii "
+root packet metadata
+    { // `tick` ""quote"" 'q'
+@calculatedFrom(""" ++ [128512]%N ++ runes_of_ascii """	)	match  o // " ++ [27880; 37322]%N ++ runes_of_ascii "
+as pack {""packet"" : A// `tick` ""quote"" 'q'
+,[
+    // @lengthOf(
+    65535	,0123456789 ,
+    // trailing space 
+    4294967296,
+    255	, ""`tick`""  ,// 50% %s
+""packet"", """ ++ [28040; 24687]%N ++ runes_of_ascii """ ] : packetx  """"// " ++ [27880; 37322]%N ++ runes_of_ascii "
+: zchar
+    42 : // " ++ [27880; 37322]%N ++ runes_of_ascii "
+packetx , }, //	t
+@rightPad( ' ' )	body , char[  7 ]
+BodyLength@lengthOf( _x )
+,
+    //	t
+    repeat
+f32a{
+    i16
+    roots @lengthOf(
+    len ) , }
+    ,
+    options1
+// a // b
+// trailing space 
+@calculatedFrom( ""\n"" ), }
+")).
+Eval vm_compute in ("<<<M4197>>>" ++ check (runes_of_ascii "// trailing space 
+root packet uint8x {
+    char[] repeatCount,
+    repeat asx {
+        char[00] stringy @lengthOf(Foo),
+        i8 string_,
+    },
+    float64 i8i8 `a\`,
+    @tag(0)
+    MetaDataX {
+        repeat uint16 stringy,
+        repeat x_y_z,
+        asx,
+    },
+    @rightPad('\x00')
+    repeat char[7] metadata,
+    i16 x,
+    match falsey as asx {
+        ""a\""b"" : u,
+    },
 }
 
 options {
-    a1 = false
-    // a // b
+    // 50% %s
+    A = string
+    o = i32;
+    Pad = ""abc""
+    _x = true;
 }
 
-packet Z9_ {
-    repeat zchar[00] options1,
-    @lengthOf(falsey)
-    repeat i8 options1 `two words`,
-    @rightPad()
-    i8 msg_type,
-    char[3] lengthOf `{ , }`,
-    string _x,
-    @leftPad()
-    // c
-    uint16 chars,
-    // @lengthOf(
-    //
-    @lengthOf(crc)
-    @leftPad('0')
-    repeat stringy calculatedFrom,
-    string int `line1
-    line2`,
-    @rightPad(' ')
-    match Foo as rootA {
-        [""packet"", ""a\""b"", """ ++ [128512]%N ++ runes_of_ascii """, """", 42] : u,
-        0 : A,
-        // trailing space 
-        00 : asx,
-        //x
-        // trailing space 
-        0 : x_y_z,
-        ""CRC32"" : i64_,
-        42 : x,
+options {
+    Pad = zchar[42];
+}")).
+Eval vm_compute in ("<<<M4542>>>" ++ check (runes_of_ascii "packet stringy {
+    // trailing space 
+    //x
+    match falsey as uint8x {
+        ""a\\"" : As,
+        ""1"" : f32a,
+        ""it's"" : MetaDataX,
+        65535 : msg_type,
+        """ ++ [128512]%N ++ runes_of_ascii """ : matchKey,
     },
-    roots {
-        repeat zchar[10] stringy `" ++ [28040; 24687; 31867; 22411]%N ++ runes_of_ascii "`,
+}
+
+packet trueish {
+    string_ u8x,
+    repeat string_ {
+        // a // b
+        msg_type {
+            charz @lengthOf(u8x),
+        },
     },
+    @lengthOf(body)
+    zchar[7] string_ `say ""hi""`,
+    char[255] uint8x @calculatedFrom(""\" ++ [233]%N ++ runes_of_ascii """) `a\`,
 }
 
 MetaData tag {
-    f32 tag ``,
+    As roots,
 }")).
-Eval vm_compute in ("<<<M1678>>>" ++ check (runes_of_ascii "  packet Packet{
-    }
-packet
-
-    repeatCount {
-
-    @tag(
-4294967296 ) @lengthOf(
-	A
-	)
-
-@lengthOf(
-	float)
-rootA ,
-    @tag(
-	0123456789
-)
-Header
-	`// not a comment`,matchKey
-
-f32a
-    ,
-Pad , 
-repeat  float32	uint8x `" ++ [233]%N ++ runes_of_ascii "`
-,	@leftPad
-
-    (
-'\x00'
-	) repeat
-
-    char[ 
-3 
-]  tag
-
-`
-` ,  repeat
-    pack
-{repeat
-    x{repeat	f64
-    len ,i64_
-
-len  ,  },
-
-    repeatCount 
-	    // `tick` ""quote"" 'q'
-@lengthOf(
-uint8x
-
-)	, match  zchar  as a1
-	{ 
-    // a // b
-    // packet A { u8 x, }
-    3 :
-u
-,
-} , 	 // packet A { u8 x, }
-repeat
-rootA{ 
-options1 
-{ 
-repeat
-
-    body u8x `crlf
-line`
-,
-match
-Z9_  as f32a
-	{ 007 
-:repeatCount  , ""packet""
-    :
-	calculatedFrom
-, 
-    // " ++ [128512]%N ++ runes_of_ascii " emoji
-  10 	 // `tick` ""quote"" 'q'
-  :  /// triple
-		calculatedFrom ,""CRC32""
-    : 
-_x
-
-, [""x y"" ]
-
-:
-i64_
-
-    ,
-	""packet""
-// `tick` ""quote"" 'q'
-
-// a // b
-    	:// `tick` ""quote"" 'q'
-MetaDataX 
-, 
-}
-    // a // b
-    // " ++ [27880; 37322]%N ++ runes_of_ascii "
-
-,
-} , 
-      //x
-  }
-    ,
-
-    }
-	, } 
-MetaData  // @lengthOf(
-	asx {
-u trueish
-
-, chars	// c
-		f32a
-`// not a comment` ,
-float64 u128,
-
-string_ string_  `
-`
-,
-
-    }
-
-packet
-	crc{
-    } ")).
-Eval vm_compute in ("<<<M1435>>>" ++ check (runes_of_ascii "options {
-    StringPrefixLenType = u8;
-    ArrayPrefixLenType = u8;
-    FixedStringPadFromLeft = true;
-    FixedStringPadChar = ' ';
-}
-packet Logout {
-    repeat string Px,
-    repeat string seqNo,
-    InMsgkind64 {
-        uint16 OrderId,
-        char[] count,
-        repeat i32 venue,
-    },
-}
-packet Heartbeat {
-    float32 tag7,
-    repeat InPrice50 {
-        repeat char[5] lastPx,
-        InRef42 {
-            u8 pad0,
-        },
-        uint32 Acct,
-        repeat Logout,
-        repeat char[5] Qty,
-    },
-    repeat InSeqno30 {
-        repeat Logout,
-    },
-    @leftPad('0') char[12] Acct,
-    char[] Side2,
-    repeat string msgKind,
-}
-packet Ack {
-    Heartbeat,
-    char[8] seqNo,
-    float64 clOrdID,
-}
-packet Trade {
-    char[] OrderId,
-    f64 Side2,
-    zchar[8] f1,
-    string Qty,
-    float64 seqNo,
-    repeat Logout,
-}
-packet Order {
-    f32 OrderId,
-    repeat u8 x,
-    Ack,
-    zchar[7] Note,
-}
-root packet Logon {
-    @rightPad('\x00') char[9] f1,
-}
-")).
-Eval vm_compute in ("<<<M376>>>" ++ check (runes_of_ascii "packet options1 { repeat  matchKey `doc` , char[] string_
-    // " ++ [27880; 37322]%N ++ runes_of_ascii "
-    `
-`, // packet A { u8 x, }
-uint16 T , repeatCount
-    _x
-    ,} packet msg_type
-    { @lengthOf( Pad
-    )
-asx @calculatedFrom(
-    ""\" ++ [233]%N ++ runes_of_ascii """) ,  @tag( 4294967296
-) Logon `a\`,@tag( 0
-    )
-crc  @lengthOf(charz// " ++ [128512]%N ++ runes_of_ascii " emoji
-) `u8 x,`
-, char[	0	] f32a // " ++ [128512]%N ++ runes_of_ascii " emoji
-,  u8
-    A `line1
-line2`,Z9_ u `{ , }`
-, repeat uint8x `" ++ [28040; 24687; 31867; 22411]%N ++ runes_of_ascii "`	, int8 Packet@calculatedFrom( ""{,}""
-) ,
-    // packet A { u8 x, }
-    } packet A {
-// trailing space 
-// trailing space 
-@tag( 3)@tag(
-    /// triple
-    1
-    )
-u16 A// c
-, @tag(1 )
-match
-//
-// @lengthOf(
-roots as
-pack{ // c
-[
-    ""CRC32"" ] :
-i8i8
-""a\\""
-    : trueish , [ ""{,}"",	""" ++ [28040; 24687]%N ++ runes_of_ascii """ ] :
-    falsey
-    // `tick` ""quote"" 'q'
-    } // a // b
-, @rightPad// packet A { u8 x, }
-( ' ') int16 Packet `
-` , // `tick` ""quote"" 'q'
-repeat zchar[1
-] Pad  , // a // b
-}
-")).
-Eval vm_compute in ("<<<M1744>>>" ++ check (runes_of_ascii "packet Pad {
-    char[007] string_,// @lengthOf(
-    @lengthOf(zchar)
-    string rootA,
-    @lengthOf(T)
-    char trueish @lengthOf(zchar) `line1
-    line2`,
-    repeat f64 calculatedFrom,
-    @calculatedFrom(""it's"")
-    leftPad `it's`,
-    stringy {
-        int8 Packet @lengthOf(metadata) `tab	here`,
-        A,
-        match charz as uint8x {
-            3 : MetaDataX,
-            1 : charz,
-            ""a	b"" : msg_type,
-            //x
-            [0, 10, ""// no comment"", ""\" ++ [233]%N ++ runes_of_ascii """] : A,
-            // @lengthOf(
-            ""\n"" : trueish,
-        },
-    },
-    @calculatedFrom(""a\\"")
-    char[7] u @calculatedFrom(""a\\""),
-    //	t
-    @tag(7)
-    o {
-        As `it's`,
-    },
-}
-
-packet u {
-}
-
-packet stringy {
-    @tag(0123456789)
-    string pack @lengthOf(Pad),
-}")).
-Eval vm_compute in ("<<<M137>>>" ++ check (runes_of_ascii "root packet x_y_z{
-    }packet calculatedFrom {char[] Foo @lengthOf( Pad
-    ) ,} root packet // @lengthOf(
-u128 // @lengthOf(
-{} packet u8x { @lengthOf(asx ) match charz
-    as msg_type { // @lengthOf(
-[ 0123456789
-    ] : i64_	,
-    [ 0]
-: a1  }
-,f32 Pad , //x
-match /// triple
-falsey as BodyLength
-    { """ ++ [233]%N ++ runes_of_ascii "t" ++ [233]%N ++ runes_of_ascii """
-:// trailing space 
-charz 10 :
-    roots ,
-10
-: x_y_z// " ++ [27880; 37322]%N ++ runes_of_ascii "
-,
-    ""`tick`"" :_x ,""// no comment""
-: chars [
-    10,
-    1
-]:	Foo ,	}	, repeat u64	u8x
-    `doc`
-,
-    @lengthOf(
-body) uint64 options1  `` ,
-@calculatedFrom(
-""a\""b"")
-    // trailing space 
-    match  Packet as x_y_z{[ 007 ]
-    // a // b
-    :
-tag  ,[ ""a\""b"" ] : rootA , //	t
-"""" : x_y_z // " ++ [27880; 37322]%N ++ runes_of_ascii "
-65535 :
-asx  ,	""" ++ [233]%N ++ runes_of_ascii "t" ++ [233]%N ++ runes_of_ascii """ : o  , } , }
-")).
-Eval vm_compute in ("<<<M1457>>>" ++ check (runes_of_ascii "options {
-    LittleEndian = true;
-    FixedStringPadFromLeft = true;
-    FixedStringPadChar = '0';
-}
-packet Trade {
-    string clOrdID,
-    char[] Px,
-    u32 x,
-}
-packet Reject {
-    int32 Side2,
-    repeat char[3] clOrdID,
-    i32 tag7,
-}
-packet Leg {
-}
-root packet Quote {
-    string Side2,
-    string lastPx,
-    InSym58 {
-        int16 OrderId,
-        Reject,
-        i8 Qty,
-        i64 venue,
-        f32 Note,
-    },
-    char[] count,
-    zchar[9] price,
-    u16 Qty,
-    match Qty as Body {
-        69 : Leg,
-        48 : Trade,
-        51 : Reject,
-    },
-    u16 Acct @calculatedFrom(""CRC32""),
-}
-")).
-Eval vm_compute in ("<<<M36>>>" ++ check (runes_of_ascii "root packet
-leftPad { match roots as packetx{
-42 : chars, 255 : f32a , }
-    , @rightPad
-(	' ' ) // @lengthOf(
-charz
-    @lengthOf( packetx ) , i32 u8x  , uint8x
-, } root packet x_y_z { u64 packetx
-@lengthOf( stringy )
-    ,
-    @leftPad// " ++ [27880; 37322]%N ++ runes_of_ascii "
-( ' '
-    ) // packet A { u8 x, }
-@rightPad ( '\x00'
-    ) // trailing space 
-@calculatedFrom(	""\" ++ [233]%N ++ runes_of_ascii """ ) uint8
-MetaDataX@lengthOf(
-    As
-    ) ,@lengthOf(
-rootA ) // c
-float64 uint8x`say ""hi""` ,@leftPad ( ' ' ) repeat float64 Pad ,
-    // packet A { u8 x, }
-    }
-")).
-Eval vm_compute in ("<<<M1674>>>" ++ check (runes_of_ascii "  // c
-    packet  float 	 // `tick` ""quote"" 'q'
+Eval vm_compute in ("<<<M895>>>" ++ check (runes_of_ascii "packet	A
     {
-    match
-tag	as x  // " ++ [128512]%N ++ runes_of_ascii " emoji
-
-  {
-
-""\n""
-    : 
-      // a // b
-    A  ,
+repeat body
+,
+    @tag(
+// packet A { u8 x, }
+// trailing space 
+0123456789 )  @tag( 255 ) @lengthOf(	body )  repeat	crc { match MetaDataX
+    as u
+    {42
+: A , """ ++ [233]%N ++ runes_of_ascii "t" ++ [233]%N ++ runes_of_ascii """ :_x} ,
+    repeat
+    // " ++ [128512]%N ++ runes_of_ascii " emoji
+    float64 packetx `two words`	,
+}//	t
+,BodyLength`{ , }`// 50% %s
+,
+    }packet tag{Logon // `tick` ""quote"" 'q'
+trueish // `tick` ""quote"" 'q'
+, crc@calculatedFrom( """ ++ [233]%N ++ runes_of_ascii "t" ++ [233]%N ++ runes_of_ascii """) ,
+@tag( 1
+)  zchar[
+//x
+/// triple
+007
+] packetx	`it's`
+, // c
 }
-
-    ,
-
-@lengthOf(	o 
-)
-A
-,char[ 
-4294967296]
-
-o@lengthOf( 	 // packet A { u8 x, }
-	a1 )
-    ,	} packet	x{ char[
-3 ] 
-BodyLength ,
-
-} packet	Header  {
-@lengthOf(
-stringy)@tag(42
-	)
-@calculatedFrom(
-
-""1"" )
-    zchar[
-
-    0123456789
-
-] As @lengthOf( 
-        // a // b
-
-packetx )
-`// not a comment`	,
-}//	t")).
-Eval vm_compute in ("<<<M298>>>" ++ check (runes_of_ascii "// a // b
-packet int  { //	t
-pack
+")).
+Eval vm_compute in ("<<<M4547>>>" ++ check (runes_of_ascii "packet BodyLength {
+    uint16 crc @calculatedFrom(""" ++ [28040; 24687]%N ++ runes_of_ascii """) `crlf
+        line`,
+    int `// not a comment`,
+    // @lengthOf(
     // trailing space 
-    @lengthOf(// " ++ [27880; 37322]%N ++ runes_of_ascii "
-leftPad
-// @lengthOf(
-// c
-),
-u128 MetaDataX,	char[] charz
-    // a // b
-    @calculatedFrom(
-""\" ++ [233]%N ++ runes_of_ascii """ ) ,calculatedFrom{
-float
-BodyLength,
-}
-, @calculatedFrom(
-""" ++ [233]%N ++ runes_of_ascii "t" ++ [233]%N ++ runes_of_ascii """
-    )  @lengthOf( MetaDataX) match Logon //
-as  i64_{  [0 ,255 , 10, 7
-    // `tick` ""quote"" 'q'
-    , 0123456789 ]
-    :  asx // " ++ [128512]%N ++ runes_of_ascii " emoji
-}
-,
-    }")).
-Eval vm_compute in ("<<<M2026>>>" ++ check (runes_of_ascii "  // top
-	packet 
-    // c0
-
-o 
-// c1
-
-	{
-	// c2
-@tag( 
-      // c3
-	42 
-      // c4
-  ) 
-  // c5
-    repeat 
-// c6
-
-	x 
-// c7
-
-{
-        // c8
-  char[ 
-// c9
-      0123456789 
-    // c10
-
-] 
-    // c11
-		i64_
-
-    // c12
-	, 
-      // c13
-
-  } 
-    // c14
-		, 
-
-// c15
-}
-    // c16
-  options  
-      // c17
-    	{ 
-      // c18
-    	}
-    // c19
-")).
-Eval vm_compute in ("<<<M136>>>" ++ check (runes_of_ascii "options { As
-=char[007 ] ;_x // a // b
-=1
-;
-    matchKey
-    =true
-;
-Logon // trailing space 
-= ' ' ;
-    stringy =/// triple
-zchar[007  ] ;
-    } root
-    packet MetaDataX { //x
-match leftPad
-    as Logon { 255
-    : packetx [0123456789
-    ]
-    : x_y_z
-, 10
-// `tick` ""quote"" 'q'
-// a // b
-: rootA} , }")).
-Eval vm_compute in ("<<<M1434>>>" ++ check (runes_of_ascii "options {
-    LittleEndian = true;
-    ArrayPrefixLenType = u64;
-    FixedStringPadFromLeft = false;
-}
-packet Quote {
-}
-root packet Order {
-    i64 Side2,
-    Quote,
-    u32 Px,
-    match Px as Body {
-        [119, 147] : Quote,
+    @leftPad('0')
+    string tag,
+    string_,
+    f64 zchar,
+    metadata @calculatedFrom(""a\\""),
+    @tag(00)
+    repeat int8 u8x,
+    match int as o {
+        ""// no comment"" : body,
+        ""a	b"" : trueish,
+        007 : falsey,
+        ""a\""b"" : tag,
+        10 : trueish,
     },
-    u16 Flags @calculatedFrom(""CR\
-C32""),
+    Pad,
+}")).
+Eval vm_compute in ("<<<M576>>>" ++ check (runes_of_ascii "options { pack // @lengthOf(
+= false
+    //
+    ; i64_ =""1"" len =
+' '	}
+// @lengthOf(
+// " ++ [27880; 37322]%N ++ runes_of_ascii "
+packet
+Z9_ { repeat
+char[
+1
+] i8i8 `
+` , @lengthOf(
+    crc ) options1// a // b
+{ repeat char[]	f32a
+    `{ , }` , match uint8x as _x {
+    ""packet"" : charz  ,	""\" ++ [233]%N ++ runes_of_ascii """ :	trueish ,	[
+007 , ""abc""	]
+: i64_ ,
+    007
+: o,
+    4294967296
+    // c
+    : options1 , }, repeat
+uint8x , }, char[65535  ]repeatCount `100% of %d` ,// a // b
 }
 ")).
-Eval vm_compute in ("<<<M1473>>>" ++ check (runes_of_ascii "packet Sub  {
-	u8
-a
-, @calculatedFrom(
-    ""CRC16"")  i16
+Eval vm_compute in ("<<<M3764>>>" ++ check (runes_of_ascii "options {
+    Pad = true;// " ++ [27880; 37322]%N ++ runes_of_ascii "
+}
 
-SubSum 
-,
-
-    }root
-packet Frame 
-{ 
-u16
-MsgType , u16  BodyLen
-	@lengthOf(Body )	, 
-Sub
-    Body
-, 
-string note,
-@calculatedFrom(""CRC16""
-    )
-i16	Checksum  ,
-
-    u8 tail  ,}
+root packet u128 {
+    repeat zchar[0123456789] x,
+    @calculatedFrom(""" ++ [28040; 24687]%N ++ runes_of_ascii """)
+    @tag(7)
+    i32 Logon,
+    matchKey u128 `100% of %d`,
+    repeat lengthOf As `100% of %d`,
+    match x_y_z as As {
+        ""x y"" : stringy,
+        """ ++ [233]%N ++ runes_of_ascii "t" ++ [233]%N ++ runes_of_ascii """ : Logon,
+        [65535, 007] : Pad,
+    },
+    f32 leftPad,
+    // trailing space 
+    @rightPad()
+    char[] uint8x @lengthOf(Foo) `it's`,
+}")).
+Eval vm_compute in ("<<<M716>>>" ++ check (runes_of_ascii "options {
+a1
+    =
+00
+    }	root packet roots {
+zchar[ 65535 ] T `tab	here` ,// @lengthOf(
+uint8 repeatCount
+, @lengthOf( chars ) @calculatedFrom(
+""\" ++ [233]%N ++ runes_of_ascii """)match //
+roots as MetaDataX {  """" :Z9_	,
+}
+, } MetaData repeatCount // @lengthOf(
+{ string _x
+, zchar[ 0]
+    body ,float64
+Pad
+    `" ++ [233]%N ++ runes_of_ascii "` ,
+// 50% %s
+// c
+} packet // " ++ [27880; 37322]%N ++ runes_of_ascii "
+a1
+    {
+u32 Z9_
+,} packet x_y_z {repeat packetx `// not a comment` ,  }
 ")).
-Eval vm_compute in ("<<<M1670>>>" ++ check (runes_of_ascii "packet  Logon	{ 
-string user  ,
-	} root packet  Frame
-
-{
-	u8 K ,
-match
-
-K
-    as  Body{
-	1
-:
-
-    Logon  ,  2
-	:
-
-Logout,  }
-
-    ,
-    Tail
-,
-
-    }	packet Logout {
-
-    u16
-    reason 
-,}	packet Tail 
-{u32
-
-crc
-,	}
-")).
-Eval vm_compute in ("<<<M547>>>" ++ check (runes_of_ascii "options
-{
-matchKey = 42/// triple
-x='0' ;
-// packet A { u8 x, }
-//
-charz
-=
-// packet A { u8 x, }
-// trailing space 
-true  ; } MetaData BodyLength
-{
-uint8
-pack,zchar[ 1]float ,  float32 x_y_z `` ,u32
-_x,i16 i16 body  , }
-")).
-Eval vm_compute in ("<<<M570>>>" ++ check (runes_of_ascii "options
-~ {
-matchKey = 42/// triple
-x='0' ;
-// packet A { u8 x, }
-//
-charz
-=
-// packet A { u8 x, }
-// trailing space 
-true  ; } MetaData BodyLength
-{
-uint8
-pack,zchar[ 1]float ,  float32 x_y_z `` ,u32
-_x,i16 body  , }
-")).
-Eval vm_compute in ("<<<M428>>>" ++ check (runes_of_ascii "options
-{
-matchKey = 42/// triple
-x='0' charz
-// packet A { u8 x, }
-//
-;
-=
-// packet A { u8 x, }
-// trailing space 
-true  ; } MetaData BodyLength
-{
-uint8
-pack,zchar[ 1]float ,  float32 x_y_z `` ,u32
-_x,i16 body  , }
-")).
-Eval vm_compute in ("<<<M416>>>" ++ check (runes_of_ascii "options
-{
-matchKey = 42/// triple
-x'0' ;
-// packet A { u8 x, }
-//
-charz
-=
-// packet A { u8 x, }
-// trailing space 
-true  ; } MetaData BodyLength
-{
-uint8
-pack,zchar[ 1]float ,  float32 x_y_z `` ,u32
-_x,i16 body  , }
-")).
-Eval vm_compute in ("<<<M1203>>>" ++ check (runes_of_ascii "// top
-packet // c0
-o // c1
-{ // c2
-@tag( // c3
-42 // c4
-) // c5
-repeat // c6
-x // c7
-{ // c8
-char[ // c9
-0123456789 // c10
-] // c11
-i64_ // c12
-, // c13
-} // c14
-, // c15
-} // c16
-options // c17
-{ // c18
-} // c19
-")).
-Eval vm_compute in ("<<<M33>>>" ++ check (runes_of_ascii "packet BodyLength{//	t
-x
-f32a
-    `line1
-line2`
-,
-@calculatedFrom( ""a\\""
-)@lengthOf(
-repeatCount
-) i8 Header
-    `{ , }` ,float64	leftPad@calculatedFrom(	""\" ++ [233]%N ++ runes_of_ascii """)
-,@calculatedFrom(  ""1"") uint64 o, } 	 ")).
-Eval vm_compute in ("<<<M569>>>" ++ check (runes_of_ascii "options
-{
-matchKey = 42/// triple
-x='0' ;
-// packet A { u8 x, }
-//
-charz
-=
-// packet A { u8 x, }
-// trailing space 
-true  ; } MetaData BodyLength
-{
-uint8
-pack,zchar[ 1]float ,  float3")).
-Eval vm_compute in ("<<<M1650>>>" ++ check (runes_of_ascii "packet MetaDataX {
-    match Header as zchar {
-        0 : pack,
-        [42, 65535] : crc,
-    },// @lengthOf(
-    @tag(1)
-    @rightPad(' ')
-    int64 Foo,
-}// packet A { u8 x, }")).
-Eval vm_compute in ("<<<M1723>>>" ++ check (runes_of_ascii "packet Foo {
-    uint64 Header @lengthOf(float) `
-    `,// a // b
-    char[] _x,
-    @tag(10)
-    char[] Packet,
-    uint16 stringy @lengthOf(calculatedFrom),
-}//x
+Eval vm_compute in ("<<<M3848>>>" ++ check (runes_of_ascii "packet matchKey {
+    char[7] T @lengthOf(matchKey),
+    match leftPad as options1 {
+        [""x y""] : As,
+    },
+    falsey @calculatedFrom(""{,}""),
+    @rightPad('0')
+    @calculatedFrom(""a\\"")
+    zchar[4294967296] asx `doc`,
+    len,
+    body @calculatedFrom(""abc""),
+    i64 len @calculatedFrom(""`tick`"") `100% of %d`,
+    @lengthOf(a1)
+    char[] metadata,//x
+}
 
 options {
 }")).
-Eval vm_compute in ("<<<M1520>>>" ++ check (runes_of_ascii "
-options	{
-    Logon=	""{,}""
-    }	//	t
-
-  MetaData
-	leftPad {i8 zchar 
-`// not a comment`
-	,}MetaData	len{char[] u128  , }	// " ++ [27880; 37322]%N ++ runes_of_ascii "
-  root
-
-    packet
-Pad
-	{
-    }
-")).
-Eval vm_compute in ("<<<M475>>>" ++ check (runes_of_ascii "options
-{
-matchKey = 42/// triple
-x='0' ;
-// packet A { u8 x, }
-//
-charz
-=
-// packet A { u8 x, }
-// trailing space 
-true  ; } MetaData BodyLength
-{")).
-Eval vm_compute in ("<<<M1716>>>" ++ check (runes_of_ascii "  packet
-A
-{	match  k
-as
-	n
-    { [  1 ,
-	22 
-,
-
-""c c"", 
-4
-    ,
-    5
-,
-
-    ""f"" ,
-
-    7,8, ""i"" 
-,
-	10]
-: B
-
-    ,	2 :
-	C } ,
-}
-
-")).
-Eval vm_compute in ("<<<M1984>>>" ++ check (runes_of_ascii "  packet 
-A
-{  u16
-
-    len
-@lengthOf(body
-	) `a
-b`	,
-u32
-	crc@calculatedFrom(
-""CRC32""  ) 
-`a
-b`
-
-    ,
-string
-body ,
-} ")).
-Eval vm_compute in ("<<<M287>>>" ++ check (runes_of_ascii "
-MetaData Pad { int64 roots ,body u128
-    //x
-    , float64 x // trailing space 
-, int32
-    chars , A options1 `
-`,
-    }
-")).
-Eval vm_compute in ("<<<M1769>>>" ++ check (runes_of_ascii "packet A {
-    u16 len @lengthOf(body) `
-        `,
-    u32 crc @calculatedFrom(""CRC32"") `
-        `,
-    string body,
-}")).
-Eval vm_compute in ("<<<M1628>>>" ++ check (runes_of_ascii "
-packet
-calculatedFrom	{ @tag( 4294967296  )	// c
-	u
-
-msg_type,
-char[ 
-3
-	]	crc
-
-@lengthOf(
-    len
-	)
-
-`u8 x,` , }
-")).
-Eval vm_compute in ("<<<M1610>>>" ++ check (runes_of_ascii "packet A {
-    u16 len @lengthOf(body) `a
-    b`,
-    u32 crc @calculatedFrom(""CRC32"") `a
-    b`,
-    string body,
-}")).
-Eval vm_compute in ("<<<M1481>>>" ++ check (runes_of_ascii "
-packet
-	Logon
-	{ @tag(
-42 )
-	@rightPad (' '
-
-    ) @leftPad (
-) repeat trueish{ // c
-
-  string T 
-,} 
-,	}
-
-")).
-Eval vm_compute in ("<<<M1697>>>" ++ check (runes_of_ascii "
-packet
+Eval vm_compute in ("<<<M914>>>" ++ check (runes_of_ascii "root packet
 Logon
-{
-@tag(
-
-42	)
-
-@rightPad(	' '
-)
-
-    @leftPad
-() repeat // c
-  trueish
-
-{string	T	,}, 
+{ zchar[ 4294967296  ]A , // trailing space 
+@tag( 007 )repeat
+    a1
+    { packetx@calculatedFrom(
+    ""a\""b"" ) ,repeat //x
+crc {
+leftPad {char[]
+float , rootA	,  repeat
+charz
+    `100% of %d` , } ,// c
+}, } ,	@lengthOf( Z9_ ) charz @calculatedFrom( """ ++ [233]%N ++ runes_of_ascii "t" ++ [233]%N ++ runes_of_ascii """ )
+    `
+` , }
+options { i8i8 = '\x00' ; u8x = char[	7]
+}	root packet BodyLength // c
+{ }")).
+Eval vm_compute in ("<<<M698>>>" ++ check (runes_of_ascii "root packet x_y_z { repeat	uint8
+    asx
+// packet A { u8 x, }
+// c
+,u128 string_
+, uint8 options1 @calculatedFrom( // a // b
+""x y""	) ,
+    } options	{ crc =
+    ""`tick`"" ; f32a= // a // b
+'\x00' o
+    = 1 u128
+=// `tick` ""quote"" 'q'
+string; }
+    // 50% %s
+    MetaData
+// `tick` ""quote"" 'q'
+// trailing space 
+Header {a1 Logon ,
+/// triple
+// c
 }
 ")).
-Eval vm_compute in ("<<<M911>>>" ++ check (runes_of_ascii "packet A {
-  match k as n {
-    [1, 22, ""c c"", 4, 5, ""f"", 7, 8, ""i"", 10, 11, ""l""] : B,
-    2 : C
-  },
+Eval vm_compute in ("<<<M4442>>>" ++ check (runes_of_ascii "packet trueish {
+    trueish uint8x,
+    char[3] roots `" ++ [233]%N ++ runes_of_ascii "`,
+    int16 x_y_z,
+}
+
+MetaData o {
+    // trailing space 
+    f64 stringy `100% of %d`,
+    Z9_ len,
+    len x,
+    char[00] _x,
+}
+
+MetaData string_ {
+    msg_type T,
+    f32 tag `say ""hi""`,
+    char[] asx `doc`,
+    u asx,
+    char[65535] trueish,
+    zchar[0123456789] asx,
 }")).
-Eval vm_compute in ("<<<M1281>>>" ++ check (runes_of_ascii "packet calculatedFrom { @tag( 4294967296 ) u msg_type , char[ 3 ] crc @lengthOf( len // c
-) `u8 x,` , }")).
-Eval vm_compute in ("<<<M949>>>" ++ check (runes_of_ascii "packet A {
+Eval vm_compute in ("<<<M3693>>>" ++ check (runes_of_ascii "packet falsey {
+    // @lengthOf(
+    @rightPad(' ')
+    int a1,
+    @calculatedFrom(""packet"")
+    @lengthOf(lengthOf)
+    repeat uint64 Logon,
+    char[3] T `crlf
+    line`,
+    @rightPad()
+    @tag(255)
+    @lengthOf(BodyLength)
+    repeat char[007] asx,
+    repeat _x Pad `a\`,
+    int16 asx ``,
+    char uint8x `doc`,
+}")).
+Eval vm_compute in ("<<<M21>>>" ++ check (runes_of_ascii "packet f32a{}options// packet A { u8 x, }
+{
+Pad
+    =
+    i8 } root
+packet Logon {	string o `doc` , @lengthOf(
+    pack // trailing space 
+) match
+    o as u
+{
+    4294967296 :
+    calculatedFrom ,  [ """ ++ [28040; 24687]%N ++ runes_of_ascii """,""x y"" ] :
+    A,	} ,
+    zchar[
+007 ] // trailing space 
+Logon , @lengthOf( o) repeat//
+char[
+0 ]_x
+, }")).
+Eval vm_compute in ("<<<M4108>>>" ++ check (runes_of_ascii "
+MetaData
+
+    chars
+
+{ 
+f32 
+u128
+	`{ , }`,
+zchar[1
+]
+chars	,
+}
+
+    MetaData x //
+
+{
+
+u8 
+	    /// triple
+// `tick` ""quote"" 'q'
+
+pack 
+`u8 x,`
+,
+
+    float32
+MetaDataX 
+	// @lengthOf(
+    `crlf
+line` 	 // @lengthOf(
+	,  string 
+Packet
+
+    ,
+char[] Z9_
+    ``
+    , zchar[ 3 ]A  ,}")).
+Eval vm_compute in ("<<<M960>>>" ++ check (runes_of_ascii "packet crc{ @lengthOf(f32a
+)@tag(3
+)repeat uint32 repeatCount,@tag(
+    3
+)
+msg_type @lengthOf( MetaDataX
+// a // b
+// packet A { u8 x, }
+) ,
+    @leftPad (
+'0')
+    match roots
+as
+i64_{
+    //
+    7  : As } , }
+    root packet u128{
+} packet lengthOf {
+// @lengthOf(
+//	t
+int16 u8x , }
+")).
+Eval vm_compute in ("<<<M1944>>>" ++ check (runes_of_ascii "packet	packetx { // trailing space 
+x_y_z
+{
+string
+charz ,
+string x// @lengthOf(
+`two words`
+    ,  u8x { // `tick` ""quote"" 'q'
+charz `100% of %d` // packet A { u8 x, }
+,}// " ++ [27880; 37322]%N ++ runes_of_ascii "
+,char[] , }
+    // a // b
+    packet metadata {  @leftPad ( '0') repeat i32 options1 ,u64 uint8x , }
+")).
+Eval vm_compute in ("<<<M1912>>>" ++ check (runes_of_ascii "packet	packetx { // trailing space 
+x_y_z
+{
+string
+charz ,
+string x// @lengthOf(
+`two words`
+    ,  u8x { { // `tick` ""quote"" 'q'
+charz `100% of %d` // packet A { u8 x, }
+,}// " ++ [27880; 37322]%N ++ runes_of_ascii "
+,} , }
+    // a // b
+    packet metadata {  @leftPad ( '0') repeat i32 options1 ,u64 uint8x , }
+")).
+Eval vm_compute in ("<<<M1868>>>" ++ check (runes_of_ascii "packet	packetx { // trailing space 
+x_y_z
+string
+{
+charz ,
+string x// @lengthOf(
+`two words`
+    ,  u8x { // `tick` ""quote"" 'q'
+charz `100% of %d` // packet A { u8 x, }
+,}// " ++ [27880; 37322]%N ++ runes_of_ascii "
+,} , }
+    // a // b
+    packet metadata {  @leftPad ( '0') repeat i32 options1 ,u64 uint8x , }
+")).
+Eval vm_compute in ("<<<M2008>>>" ++ check (runes_of_ascii "packet	packetx { // trailing space 
+x_y_z
+{
+string
+charz ,
+string x// @lengthOf(
+`two words`
+    ,  u8x { // `tick` ""quote"" 'q'
+charz `100% of %d` // packet A { u8 x, }
+,}// " ++ [27880; 37322]%N ++ runes_of_ascii "
+,} , }
+    // a // b
+    packet metadata {  @leftPad ( '0') repeat i32 options1 u64, uint8x , }
+")).
+Eval vm_compute in ("<<<M2004>>>" ++ check (runes_of_ascii "packet	packetx { // trailing space 
+x_y_z
+{
+string
+charz ,
+string x// @lengthOf(
+`two words`
+    ,  u8x { // `tick` ""quote"" 'q'
+charz `100% of %d` // packet A { u8 x, }
+,}// " ++ [27880; 37322]%N ++ runes_of_ascii "
+,} , }
+    // a // b
+    packet metadata {  @leftPad ( '0') repeat i32 packet ,u64 uint8x , }
+")).
+Eval vm_compute in ("<<<M3698>>>" ++ check (runes_of_ascii "packet crc {
+    string chars `
+    `,
+    i64 Z9_ @calculatedFrom(""1""),
+    match zchar as asx {
+        4294967296 : trueish,
+    },
+}
+
+options {
+    zchar = """";
+}
+
+root packet matchKey {
+    zchar[65535] int,
+    zchar[4294967296] leftPad `// not a comment`,
+}
+// 50% %s")).
+Eval vm_compute in ("<<<M291>>>" ++ check (runes_of_ascii "packet // 50% %s
+trueish { lengthOf len ``, @leftPad // @lengthOf(
+(
+    ' '  ) @calculatedFrom( """" )
+@tag(4294967296 // packet A { u8 x, }
+)
+Z9_ falsey
+    `doc`
+    ,char[]
+    lengthOf@lengthOf(
+    charz
+    ) , u16 BodyLength
+`a\`
+    // trailing space 
+    , }
+")).
+Eval vm_compute in ("<<<M1499>>>" ++ check (runes_of_ascii "packet calculatedFrom
+{ @calculatedFrom( ""a\\"" ) zchar[ 4294967296 ]
+calculatedFrom@lengthOf( pack )	`100% of %d` ,char[]body@calculatedFrom( @calculatedFrom( ""// no comment"" )  ,
+@tag( 007) //x
+int8
+leftPad`it's` , repeat pack
+    { repeat char[ 3] body
+,},
+}")).
+Eval vm_compute in ("<<<M2185>>>" ++ check (runes_of_ascii "packet// packet A { u8 x, }
+repeatCount	{// packet A { u8 x, }
+@leftPad ( '\x00'
+) repeat u8x MetaDataX `crlf
+line`,
+    repeat
+    char[] MetaDataX
+    ,
+u64	uint8x@calculatedFrom(""a\""b""
+// c
+// packet A { u8 x, }
+) `tab	here`
+,//
+}MetaData pack
+    {
+    } }
+")).
+Eval vm_compute in ("<<<M2076>>>" ++ check (runes_of_ascii "packet// packet A { u8 x, }
+repeatCount	{// packet A { u8 x, }
+@leftPad ( )
+'\x00' repeat u8x MetaDataX `crlf
+line`,
+    repeat
+    char[] MetaDataX
+    ,
+u64	uint8x@calculatedFrom(""a\""b""
+// c
+// packet A { u8 x, }
+) `tab	here`
+,//
+}MetaData pack
+    {
+    }
+")).
+Eval vm_compute in ("<<<M2104>>>" ++ check (runes_of_ascii "packet// packet A { u8 x, }
+repeatCount	{// packet A { u8 x, }
+@leftPad ( '\x00'
+) repeat u8x MetaDataX `crlf
+line`
+    repeat
+    char[] MetaDataX
+    ,
+u64	uint8x@calculatedFrom(""a\""b""
+// c
+// packet A { u8 x, }
+) `tab	here`
+,//
+}MetaData pack
+    {
+    }
+")).
+Eval vm_compute in ("<<<M4313>>>" ++ check (runes_of_ascii "options {
+
+    pack	=
+0123456789 }	MetaData
+
+    // `tick` ""quote"" 'q'
+    metadata{
+u16
+float ,  }
+	packet
+
+As
+{ char[
+
+    0123456789
+]
+	repeatCount,
+	u32
+_x
+    `100% of %d`  ,  // a // b
+    @tag(  3
+)repeat
+
+    i64
+
+    len 
+`a\`  ,
+
+}
+")).
+Eval vm_compute in ("<<<M1559>>>" ++ check (runes_of_ascii "packet calculatedFrom
+{ @calculatedFrom( ""a\\"" ) zchar[ 4294967296 ]
+calculatedFrom@lengthOf( pack )	`100% of %d` ,char[]body@calculatedFrom( ""// no comment"" )  ,
+@tag( 007) //x
+int8
+leftPad`it's` , repeat pack pack
+    { repeat char[ 3] body
+,},
+}")).
+Eval vm_compute in ("<<<M1474>>>" ++ check (runes_of_ascii "packet calculatedFrom
+{ @calculatedFrom( ""a\\"" ) zchar[ 4294967296 ]
+calculatedFrom@lengthOf( pack ) )	`100% of %d` ,char[]body@calculatedFrom( ""// no comment"" )  ,
+@tag( 007) //x
+int8
+leftPad`it's` , repeat pack
+    { repeat char[ 3] body
+,},
+}")).
+Eval vm_compute in ("<<<M1618>>>" ++ check (runes_of_ascii "packet calcul#atedFrom
+{ @calculatedFrom( ""a\\"" ) zchar[ 4294967296 ]
+calculatedFrom@lengthOf( pack )	`100% of %d` ,char[]body@calculatedFrom( ""// no comment"" )  ,
+@tag( 007) //x
+int8
+leftPad`it's` , repeat pack
+    { repeat char[ 3] body
+,},
+}")).
+Eval vm_compute in ("<<<M1486>>>" ++ check (runes_of_ascii "packet calculatedFrom
+{ @calculatedFrom( ""a\\"" ) zchar[ 4294967296 ]
+calculatedFrom@lengthOf( pack )	`100% of %d` [char[]body@calculatedFrom( ""// no comment"" )  ,
+@tag( 007) //x
+int8
+leftPad`it's` , repeat pack
+    { repeat char[ 3] body
+,},
+}")).
+Eval vm_compute in ("<<<M1483>>>" ++ check (runes_of_ascii "packet calculatedFrom
+{ @calculatedFrom( ""a\\"" ) zchar[ 4294967296 ]
+calculatedFrom@lengthOf( pack )	`100% of %d` char[]body@calculatedFrom( ""// no comment"" )  ,
+@tag( 007) //x
+int8
+leftPad`it's` , repeat pack
+    { repeat char[ 3] body
+,},
+}")).
+Eval vm_compute in ("<<<M1588>>>" ++ check (runes_of_ascii "packet calculatedFrom
+{ @calculatedFrom( ""a\\"" ) zchar[ 4294967296 ]
+calculatedFrom@lengthOf( pack )	`100% of %d` ,char[]body@calculatedFrom( ""// no comment"" )  ,
+@tag( 007) //x
+int8
+leftPad`it's` , repeat pack
+    { repeat char[ 3] 
+,},
+}")).
+Eval vm_compute in ("<<<M1461>>>" ++ check (runes_of_ascii "packet calculatedFrom
+{ @calculatedFrom( ""a\\"" ) zchar[ 4294967296 ]
+""it's""@lengthOf( pack )	`100% of %d` ,char[]body@calculatedFrom( ""// no comment"" )  ,
+@tag( 007) //x
+int8
+leftPad`it's` , repeat pack
+    { repeat char[ 3] body
+,},
+}")).
+Eval vm_compute in ("<<<M957>>>" ++ check (runes_of_ascii "root packet charz {
+match
+// trailing space 
+// trailing space 
+f32a as
+    lengthOf { [""1""
+    ]: asx , """ ++ [233]%N ++ runes_of_ascii "t" ++ [233]%N ++ runes_of_ascii """ :f32a ,
+    // c
+    [
+7 , ""1""
+,""\n""]
+: // 50% %s
+uint8x , """" :rootA ,
+},}
+// " ++ [27880; 37322]%N ++ runes_of_ascii "
+// @lengthOf(
+packet
+Header  { } 	 ")).
+Eval vm_compute in ("<<<M385>>>" ++ check (runes_of_ascii "packet f32a
+{ repeat
+    packetx `// not a comment` ,
+@lengthOf(
+Foo  )
+zchar ,@tag( 007 // packet A { u8 x, }
+)
+    @calculatedFrom( ""\" ++ [233]%N ++ runes_of_ascii """ )	@tag(007)
+x_y_z @calculatedFrom( ""packet""	)
+    `
+`	, char[
+3  ] pack ,
+}")).
+Eval vm_compute in ("<<<M3655>>>" ++ check (runes_of_ascii "packet leftPad {
+    string stringy,
+}// 50% %s
+
+packet u8x {
+    repeat float64 a1,
+    @tag(0123456789)
+    @rightPad()
+    A @lengthOf(matchKey) `
+    `,
+    zchar[7] Logon @calculatedFrom(""x y""),
+    a1,
+}")).
+Eval vm_compute in ("<<<M1557>>>" ++ check (runes_of_ascii "packet calculatedFrom
+{ @calculatedFrom( ""a\\"" ) zchar[ 4294967296 ]
+calculatedFrom@lengthOf( pack )	`100% of %d` ,char[]body@calculatedFrom( ""// no comment"" )  ,
+@tag( 007) //x
+int8
+leftPad`it's` ,")).
+Eval vm_compute in ("<<<M4349>>>" ++ check (runes_of_ascii "
+options {}
+packet
+Packet
+	{
+    char[] 
+i64_
+	, 
+@tag( 
+255)
+
+    match 
+crc  as
+i8i8
+
+{ ""{,}""
+
+    :  trueish
+
+""""  :
+    Pad ,""a\\""
+
+:Foo  ,
+1
+	: packetx  """ ++ [128512]%N ++ runes_of_ascii """ : trueish
+,  }
+
+    , } ")).
+Eval vm_compute in ("<<<M3517>>>" ++ check (runes_of_ascii "root packet Frame {
+    u8 K,
+    Logon first,
+    match K as Body {
+        1 : Logon,
+        2 : Logout,
+    },
+}
+packet Logon {
+    string user,
+}
+packet Logout {
+    u16 reason,
+}
+")).
+Eval vm_compute in ("<<<M4070>>>" ++ check (runes_of_ascii "packet lengthOf {
+    // trailing space 
+    @lengthOf(Pad)
+    @leftPad(' ')
+    @rightPad('0')
+    u @lengthOf(_x) `say ""hi""`,
+    o x,
+    @calculatedFrom(""`tick`"")
+    Pad,
+}")).
+Eval vm_compute in ("<<<M4538>>>" ++ check (runes_of_ascii "root packet trueish {
+}
+
+root packet T {
+    repeat asx float,
+}
+
+MetaData repeatCount {
+    /// triple
+    Packet falsey,
+}
+
+MetaData Z9_ {
+    zchar[7] Foo,
+}
+/// triple")).
+Eval vm_compute in ("<<<M4162>>>" ++ check (runes_of_ascii "
+MetaData
+	float
+
+    {
+    uint8 
+BodyLength 
+, }MetaData
+
+    charz
+
+    {
+float32
+
+    trueish
+`a\`
+
+    ,  // c
+	i16
+
+    metadata  `say ""hi""`
+,
+}
+
+")).
+Eval vm_compute in ("<<<M2360>>>" ++ check (runes_of_ascii "
+packet MetaDataX
+{
+    @leftPad
+( // a // b
+'0'
+) i8 na" ++ [239]%N ++ runes_of_ascii "ve @lengthOf(
+MetaDataX
+    ) `say ""hi""` ,	} MetaData BodyLength {
+    asx
+x_y_z `" ++ [233]%N ++ runes_of_ascii "`
+, uint64 u128 , }
+")).
+Eval vm_compute in ("<<<M2354>>>" ++ check (runes_of_ascii "
+packet MetaDataX
+{
+    @leftPad
+( // a // b
+'0'
+) i8 u @lengthOf(
+MetaDataX
+    ) `say ""hi""` , ,	} MetaData BodyLength {
+    asx
+x_y_z `" ++ [233]%N ++ runes_of_ascii "`
+, uint64 u128 , }
+")).
+Eval vm_compute in ("<<<M2426>>>" ++ check (runes_of_ascii "
+packet MetaDataX
+{
+    @leftPad
+( // a // b
+'0'
+) i8 u @lengthOf(
+MetaDataX
+    ) `say ""hi""` ,	} MetaData BodyLength {
+    asx
+x_y_z `" ++ [233]%N ++ runes_of_ascii "`
+`, uint64 u128 , }
+")).
+Eval vm_compute in ("<<<M3966>>>" ++ check (runes_of_ascii "
+MetaData	metadata	{ }MetaData
+
+    rootA 
+{i8
+i64_
+
+,roots
+    options1 `a\`,
+
+    lengthOf  Header
+,
+Z9_	Foo
+,int16 
+BodyLength
+
+    // c
+  ,
+    }
+")).
+Eval vm_compute in ("<<<M2364>>>" ++ check (runes_of_ascii "
+packet MetaDataX
+{
+    @leftPad
+( // a // b
+'0'
+) i8 u @lengthOf(
+MetaDataX
+    ) `say ""hi""` ,	} MetaData BodyLength {
+    asx
+x_y_z `" ++ [233]%N ++ runes_of_ascii "`
+, uint64 u128 , 
+")).
+Eval vm_compute in ("<<<M3450>>>" ++ check (runes_of_ascii "root packet // c1
+P
+    // c2
+{ // c3a
+  // c3b
+hdr // c4
+{ // c5
+u8 // c6
+a
+    // c7
+,
+    // c8
+} , u8
+    // c11
+x // c12
+, // c13
+} // c14a
+  // c14b
+")).
+Eval vm_compute in ("<<<M1764>>>" ++ check (runes_of_ascii "options { } packet Packet{char[] i64_ ,
+@tag(
+    255) match
+crc as i8i8{""{,}"" : trueish """" : Pad , ""a\\"" :
+, Foo
+    1 :packetx
+, """ ++ [128512]%N ++ runes_of_ascii """ : trueish , } , }")).
+Eval vm_compute in ("<<<M1767>>>" ++ check (runes_of_ascii "options { } packet Packet{char[] i64_ ,
+@tag(
+    255) match
+crc as i8i8{""{,}"" : trueish """" : Pad , ""a\\"" :
+Foo 
+    1 :packetx
+, """ ++ [128512]%N ++ runes_of_ascii """ : trueish , } , }")).
+Eval vm_compute in ("<<<M3752>>>" ++ check (runes_of_ascii "packet A {
+    match k as n {
+        [
+            1, 22, 007, 4, 5,
+            66, 7, 8, 9, 10,
+            11
+        ] : B,
+        2 : C,
+    },
+}")).
+Eval vm_compute in ("<<<M1167>>>" ++ check (runes_of_ascii "/// triple
+options
+// " ++ [27880; 37322]%N ++ runes_of_ascii "
+// c
+{ u8x	= u64 // `tick` ""quote"" 'q'
+lengthOf =
+""a	b""  lengthOf = ' '
+; T
+= '\x00' // @lengthOf(
+; // @lengthOf(
+} //	t")).
+Eval vm_compute in ("<<<M3989>>>" ++ check (runes_of_ascii "packet	crc{
+
+int32 
+Z9_
+    @lengthOf(tag  )
+`// not a comment` //x
+  ,
+	}MetaData  string_
+{
+}
+	// c
+    options
+	{
+
+a1=
+
+    """ ++ [233]%N ++ runes_of_ascii "t" ++ [233]%N ++ runes_of_ascii """
+
+    } ")).
+Eval vm_compute in ("<<<M1342>>>" ++ check (runes_of_ascii "packet body {	uint32
+    metadata `
+`,  } MetaData body	{	uint16
+int	, }MetaData
+charz
+{ asx matchKey
+    , i8i8 int,
+string_ msg_type, }
+")).
+Eval vm_compute in ("<<<M3977>>>" ++ check (runes_of_ascii "
+packet	A
+    {match
+
+k
+    as
+    n  { 
+[1
+,
+
+22
+
+,	""c c"",
+
+4
+,
+    5 ,
+""f""
+    ,
+    7 , 8
+
+    ,
+
+    ""i"" 
+]
+: B 2 :C }
+, 
+}
+")).
+Eval vm_compute in ("<<<M106>>>" ++ check (runes_of_ascii "options
+{ x_y_z=0123456789 ; falsey = ' '  float
+    // c
+    = true} MetaData
+int {  u64	BodyLength
+    `// not a comment` ,
+    }
+")).
+Eval vm_compute in ("<<<M200>>>" ++ check (runes_of_ascii "  MetaData len { }
+    packet A{  body
+metadata ,
+} MetaData trueish { u16
+Foo
+    ,
+    char[] calculatedFrom,
+uint16 i64_
+,}
+")).
+Eval vm_compute in ("<<<M3265>>>" ++ check (runes_of_ascii "MetaData metadata
+// c
+{ } MetaData rootA { i8 i64_ , roots options1 `a\` , lengthOf Header , Z9_ Foo , int16 BodyLength , }")).
+Eval vm_compute in ("<<<M3297>>>" ++ check (runes_of_ascii "MetaData metadata { } MetaData rootA { i8 i64_ , roots options1 `a\` , lengthOf Header , Z9_
+// c
+Foo , int16 BodyLength , }")).
+Eval vm_compute in ("<<<M3846>>>" ++ check (runes_of_ascii "// c
+MetaData float {
+    uint8 BodyLength,
+}
+
+MetaData charz {
+    float32 trueish `a\`,
+    i16 metadata `say ""hi""`,
+}")).
+Eval vm_compute in ("<<<M1354>>>" ++ check (runes_of_ascii "packet f32a
+    {int16 int
+    ,
+    } MetaData f32a { char i8i8 , /// triple
+string Pad, zchar
+f32a ,
+    x	T,
+}
+")).
+Eval vm_compute in ("<<<M3317>>>" ++ check (runes_of_ascii "
+// c
+MetaData float { uint8 BodyLength , } MetaData charz { float32 trueish `a\` , i16 metadata `say ""hi""` , }")).
+Eval vm_compute in ("<<<M3336>>>" ++ check (runes_of_ascii "MetaData float { uint8 BodyLength , } MetaData charz { // c
+float32 trueish `a\` , i16 metadata `say ""hi""` , }")).
+Eval vm_compute in ("<<<M335>>>" ++ check (runes_of_ascii "root
+    packet BodyLength { i64_ tag
+    `{ , }` ,@leftPad (
+'\x00' ) Pad `{ , }`/// triple
+, u128 body ,	}")).
+Eval vm_compute in ("<<<M3087>>>" ++ check (runes_of_ascii "packet A {
     Inner {
-        u8 x `x
-`,
+        u8 x `%%d%!`,
         Deep {
-            u8 y `x
-`,
+            u8 y `%%d%!`,
         },
     },
 }")).
-Eval vm_compute in ("<<<M327>>>" ++ check (runes_of_ascii "MetaData
-    // " ++ [128512]%N ++ runes_of_ascii " emoji
-    msg_type { As  roots , i32  rootA, f64 falsey  ,
-char[]
-rootA ,}
-")).
-Eval vm_compute in ("<<<M1159>>>" ++ check (runes_of_ascii "packet Logon { @tag( 42 ) @rightPad ( ' ' ) @leftPad ( ) repeat trueish
-// c
-{ string T , } , }")).
-Eval vm_compute in ("<<<M891>>>" ++ check (runes_of_ascii "packet A {
-  match k as n {
-    [1, 22, 007, 4, 5, 66, 7, 8, 9, 10, 11] : B
-    2 : C
-  },
-}")).
-Eval vm_compute in ("<<<M675>>>" ++ check (runes_of_ascii "// c
-packet i64_ {	char[] calculatedFrom , } packet
-trueish  {@calculatedFrom(
-""a\\"" ) o")).
-Eval vm_compute in ("<<<M842>>>" ++ check (runes_of_ascii "packet A {
-  match k as n {
-    [1, ""bb"", 007, ""d"", 5, ""f"", 7] : B,
-    2 : C
-  },
-}")).
-Eval vm_compute in ("<<<M1210>>>" ++ check (runes_of_ascii "packet o // c
-{ @tag( 42 ) repeat x { char[ 0123456789 ] i64_ , } , } options { }")).
-Eval vm_compute in ("<<<M1242>>>" ++ check (runes_of_ascii "packet o { @tag( 42 ) repeat x { char[ 0123456789 ] i64_ , } , } options // c
-{ }")).
-Eval vm_compute in ("<<<M46>>>" ++ check (runes_of_ascii "options
-    {
-    }packet
-    repeatCount { // `tick` ""quote"" 'q'
-}options{}
-")).
-Eval vm_compute in ("<<<M1534>>>" ++ check (runes_of_ascii "  MetaData
-stringy 
-{  char[  0	]
-    chars	// @lengthOf(
-  `{ , }`
-, } ")).
-Eval vm_compute in ("<<<M755>>>" ++ check (runes_of_ascii "match u16 match zchar[ '\x00' true [ false ) @lengthOf( ""a\\"" float32 }")).
-Eval vm_compute in ("<<<M1324>>>" ++ check (runes_of_ascii "MetaData _x { zchar[ 4294967296 ] lengthOf `// not a comment`
-// c
-, }")).
-Eval vm_compute in ("<<<M1616>>>" ++ check (runes_of_ascii "root packet P {
-    u16 a,
-    u32 Sum @calculatedFrom(""CRC32""),
-}")).
-Eval vm_compute in ("<<<M738>>>" ++ check (runes_of_ascii "'0' '\x00' 255 rootA root string '0' match zchar[ ( uint16 ,")).
-Eval vm_compute in ("<<<M643>>>" ++ check (runes_of_ascii "MetaData
-    // trailing space 
-    matchKey
-{ u64 char")).
-Eval vm_compute in ("<<<M1293>>>" ++ check (runes_of_ascii "// top
-packet
-    // c0
-lengthOf {
-    // c2
-} ")).
-Eval vm_compute in ("<<<M430>>>" ++ check (runes_of_ascii "options
+Eval vm_compute in ("<<<M4038>>>" ++ check (runes_of_ascii "  MetaData
+
+    _x 
 {
-matchKey = 42/// triple
-x='0'")).
-Eval vm_compute in ("<<<M345>>>" ++ check (runes_of_ascii "options
-{ Logon = //x
-'\x00'
-    ; }
+
+    f64
+charz `tab	here`	,
+} options
+	{
+	BodyLength
+
+= """ ++ [233]%N ++ runes_of_ascii "t" ++ [233]%N ++ runes_of_ascii """ ; 	 // c
+  }
+
 ")).
-Eval vm_compute in ("<<<M1693>>>" ++ check (runes_of_ascii "options	// c
-    { u8x  =
-    3}
-")).
-Eval vm_compute in ("<<<M977>>>" ++ check (runes_of_ascii "packet A {
- u8 x `d `, // c 
+Eval vm_compute in ("<<<M3063>>>" ++ check (runes_of_ascii "packet A {
+    Inner {
+        u8 x `
+x`,
+        Deep {
+            u8 y `
+x`,
+        },
+    },
 }")).
-Eval vm_compute in ("<<<M266>>>" ++ check (runes_of_ascii "options
-{Packet=
-char[] }")).
-Eval vm_compute in ("<<<M1190>>>" ++ check (runes_of_ascii "options { u8x
+Eval vm_compute in ("<<<M2357>>>" ++ check (runes_of_ascii "
+packet MetaDataX
+{
+    @leftPad
+( // a // b
+'0'
+) i8 u @lengthOf(
+MetaDataX
+    ) `say ""hi""` ,")).
+Eval vm_compute in ("<<<M2993>>>" ++ check (runes_of_ascii "packet A {
+  match k as n {
+    [1, 22, ""c c"", 4, 5, ""f"", 7, 8, ""i"", 10] : B,
+    2 : C
+  },
+}")).
+Eval vm_compute in ("<<<M2215>>>" ++ check (runes_of_ascii "MetaData _x _x {string x `// not a comment` , string
+i64_ // trailing space 
+`a\` ,
+    }
+")).
+Eval vm_compute in ("<<<M1171>>>" ++ check (runes_of_ascii "MetaData T
+{ // `tick` ""quote"" 'q'
+} MetaData
+body {char[4294967296] calculatedFrom,	}
+")).
+Eval vm_compute in ("<<<M2236>>>" ++ check (runes_of_ascii "MetaData _x {string x , `// not a comment` string
+i64_ // trailing space 
+`a\` ,
+    }
+")).
+Eval vm_compute in ("<<<M883>>>" ++ check (runes_of_ascii "MetaData T { int16
+    Logon // packet A { u8 x, }
+, u8x rootA ,
+    packetx A , } 	 ")).
+Eval vm_compute in ("<<<M2731>>>" ++ check (runes_of_ascii "repeat u32 char[] char zchar[ string char[ MetaData float64 4294967296 uint32 char ;")).
+Eval vm_compute in ("<<<M4141>>>" ++ check (runes_of_ascii "MetaData _x {
+    f64 charz `tab	here`,
+}// c
+
+options {
+    BodyLength = """ ++ [233]%N ++ runes_of_ascii "t" ++ [233]%N ++ runes_of_ascii """;
+}")).
+Eval vm_compute in ("<<<M3816>>>" ++ check (runes_of_ascii "packet
+    A
+{  B
+    b
+    `a
+
+b`,B
+	`a
+
+b` ,repeat
+    B
+    bs
+	`a
+
+b` ,
+
+} ")).
+Eval vm_compute in ("<<<M4434>>>" ++ check (runes_of_ascii "options {
+    Packet = f64
+    T = '\x00';
+    Header = 42;
+    stringy = 1;
+}")).
+Eval vm_compute in ("<<<M3369>>>" ++ check (runes_of_ascii "MetaData _x {
 // c
-= 3 }")).
-Eval vm_compute in ("<<<M182>>>" ++ check (runes_of_ascii "root packet As { }
+f64 charz `tab	here` , } options { BodyLength = """ ++ [233]%N ++ runes_of_ascii "t" ++ [233]%N ++ runes_of_ascii """ ; }")).
+Eval vm_compute in ("<<<M2778>>>" ++ check (runes_of_ascii ": @lengthOf( false zchar[ string ] root @tag( [ MetaData { char[ @leftPad ]")).
+Eval vm_compute in ("<<<M3439>>>" ++ check (runes_of_ascii "
+root  packet
+P
+
+    {	repeat char
+
+    cs, u8
+
+    x
+
+    ,
+	} ")).
+Eval vm_compute in ("<<<M2901>>>" ++ check (runes_of_ascii "packet A {
+  match k as n {
+    [""a"", 22, ""c c""] : B
+    2 : C
+  },
+}")).
+Eval vm_compute in ("<<<M3415>>>" ++ check (runes_of_ascii "packet o { @tag( 4294967296 ) options1
+// c
+@lengthOf( u8x ) `" ++ [233]%N ++ runes_of_ascii "` , }")).
+Eval vm_compute in ("<<<M931>>>" ++ check (runes_of_ascii "  MetaData pack { Logon
+stringy
+    //
+    `// not a comment`
+,	}")).
+Eval vm_compute in ("<<<M2806>>>" ++ check (runes_of_ascii "char[ char = 42 false i32 u16 i16 ( char[ char[ @tag( `tab	here`")).
+Eval vm_compute in ("<<<M1179>>>" ++ check (runes_of_ascii "MetaData uint8x // trailing space 
+{
+As
+chars//	t
+`u8 x,` ,}")).
+Eval vm_compute in ("<<<M3219>>>" ++ check (runes_of_ascii "packet A { @leftPad() char[4] x, @rightPad( ) zchar[2] y, }")).
+Eval vm_compute in ("<<<M749>>>" ++ check (runes_of_ascii "MetaData Z9_ { char[]charz, T  i64_ ,Logon Z9_ , }
+//	t
+")).
+Eval vm_compute in ("<<<M2387>>>" ++ check (runes_of_ascii "
+packet MetaDataX
+{
+    @leftPad
+( // a // b
+'0'
+) i8")).
+Eval vm_compute in ("<<<M49>>>" ++ check (runes_of_ascii "MetaData
+Pad { string
+    uint8x ,
+int8	As
+,
+} 	 ")).
+Eval vm_compute in ("<<<M4418>>>" ++ check (runes_of_ascii "
+
+  root
+packet	P
+
+{	hdr { u8 a
+	,}
+
+,
+u8
+	x,	}
+")).
+Eval vm_compute in ("<<<M2305>>>" ++ check (runes_of_ascii "
+MetaData Pad{
+rootA u32 `line1
+line2` ,
+    }
+")).
+Eval vm_compute in ("<<<M4345>>>" ++ check (runes_of_ascii "
+packet
+	zchar
+{zchar[	65535
+] body
+`
+`
+, }
+")).
+Eval vm_compute in ("<<<M3945>>>" ++ check (runes_of_ascii "
+
+  // " ++ [128512]%N ++ runes_of_ascii " emoji
+
+	options
+{  // a // b
+  }
 
 ")).
-Eval vm_compute in ("<<<M1005>>>" ++ check (runes_of_ascii "packet A {
+Eval vm_compute in ("<<<M840>>>" ++ check (runes_of_ascii "
+MetaData T  {// " ++ [27880; 37322]%N ++ runes_of_ascii "
+Packet rootA ,
+    }")).
+Eval vm_compute in ("<<<M3237>>>" ++ check (runes_of_ascii "MetaData zchar { // c
+zchar[ 3 ] Pad , }")).
+Eval vm_compute in ("<<<M2879>>>" ++ check ([16]%N ++ runes_of_ascii "v" ++ [65533; 65533; 65533; 65533; 17; 5]%N ++ runes_of_ascii "&1" ++ [65533; 65533]%N ++ runes_of_ascii "b" ++ [65533; 65533]%N ++ runes_of_ascii "s" ++ [29]%N ++ runes_of_ascii "
+" ++ [65533; 65533; 65533]%N ++ runes_of_ascii "$" ++ [20; 65533]%N ++ runes_of_ascii "b}" ++ [65533; 19]%N ++ runes_of_ascii "	-," ++ [65533; 65533; 65533]%N ++ runes_of_ascii "3%" ++ [65533; 322]%N)).
+Eval vm_compute in ("<<<M2722>>>" ++ check (runes_of_ascii "255 ; int8 as f64 , @leftPad float32")).
+Eval vm_compute in ("<<<M2863>>>" ++ check (runes_of_ascii "] as int16 [ 007 f32 { @lengthOf( =")).
+Eval vm_compute in ("<<<M2407>>>" ++ check (runes_of_ascii "
+packet MetaDataX
+{
+    @leftPad
+")).
+Eval vm_compute in ("<<<M3704>>>" ++ check (runes_of_ascii "packet A {
+    u8 x `d" ++ [12288]%N ++ runes_of_ascii "`,// c" ++ [12288]%N ++ runes_of_ascii "
+}")).
+Eval vm_compute in ("<<<M3186>>>" ++ check (runes_of_ascii "packet A {
+ u8 x `d" ++ [6158]%N ++ runes_of_ascii "`, // c" ++ [6158]%N ++ runes_of_ascii "
+}")).
+Eval vm_compute in ("<<<M59>>>" ++ check (runes_of_ascii "root packet i8i8
+    {  }
+
+")).
+Eval vm_compute in ("<<<M2614>>>" ++ check (runes_of_ascii "packet A { x @leftPad(), }")).
+Eval vm_compute in ("<<<M4068>>>" ++ check (runes_of_ascii "packet calculatedFrom {
+}")).
+Eval vm_compute in ("<<<M147>>>" ++ check (runes_of_ascii " // packet A { u8 x, }")).
+Eval vm_compute in ("<<<M442>>>" ++ check (runes_of_ascii "
+root packet crc { }")).
+Eval vm_compute in ("<<<M2663>>>" ++ check (runes_of_ascii "MetaData M { u8 x }")).
+Eval vm_compute in ("<<<M3135>>>" ++ check (runes_of_ascii "// c" ++ [8202]%N ++ runes_of_ascii "
+packet A {
+}")).
+Eval vm_compute in ("<<<M1047>>>" ++ check (runes_of_ascii "
+packet
+a1 {
 }
-// c" ++ [8202]%N)).
-Eval vm_compute in ("<<<M983>>>" ++ check (runes_of_ascii "packet A {
-}// c" ++ [160]%N)).
-Eval vm_compute in ("<<<M1866>>>" ++ check (runes_of_ascii "
-
-  // c 	
 ")).
-Eval vm_compute in ("<<<M1014>>>" ++ check (runes_of_ascii "// c" ++ [8233]%N)).
+Eval vm_compute in ("<<<M269>>>" ++ check (runes_of_ascii "packet pack	{ }
+")).
+Eval vm_compute in ("<<<M4262>>>" ++ check (runes_of_ascii "packet A{}// c" ++ [12288]%N)).
+Eval vm_compute in ("<<<M781>>>" ++ check (runes_of_ascii "options {}
+")).
+Eval vm_compute in ("<<<M2656>>>" ++ check (runes_of_ascii "packet A }")).
+Eval vm_compute in ("<<<M2875>>>" ++ check (runes_of_ascii "true """ ++ [128512]%N ++ runes_of_ascii """")).
+Eval vm_compute in ("<<<M2461>>>" ++ check (runes_of_ascii "uint88")).
+Eval vm_compute in ("<<<M2533>>>" ++ check (runes_of_ascii """ab""")).
+Eval vm_compute in ("<<<M2510>>>" ++ check (runes_of_ascii "@tag")).
+Eval vm_compute in ("<<<M2519>>>" ++ check (runes_of_ascii "///")).
+Eval vm_compute in ("<<<M2526>>>" ++ check (runes_of_ascii """""")).
+Eval vm_compute in ("<<<M2700>>>" ++ check (runes_of_ascii " ")).
